@@ -12,1261 +12,2754 @@ Definition show_fres (r : fres) : string :=
   end.
 Definition check (rs : list rune) : string := digest (show_fres (format_res rs)).
 Definition full (rs : list rune) : string := show_fres (format_res rs).
-Eval vm_compute in ("<<<M1564>>>" ++ check (runes_of_ascii "// top
-options
-    // c0
-{ // c1
-LittleEndian
-    // c2
-= // c3
-false ; FixedStringPadFromLeft // c6a
-  // c6b
-= // c7a
-  // c7b
-false // c8
-; FixedStringPadChar
-    // c10
-= ' ' // c12
-; // c13
+Eval vm_compute in ("<<<M163>>>" ++ check (runes_of_ascii "// " ++ [128512]%N ++ runes_of_ascii " emoji
+root packet	uint8x
+{ zchar[ 007 ] trueish `doc` , @calculatedFrom(
+""" ++ [28040; 24687]%N ++ runes_of_ascii """)body Pad
+, }
+packet i64_
+// packet A { u8 x, }
+// packet A { u8 x, }
+{ int32
+i8i8 `doc` ,// a // b
 }
-    // c14
-packet Fill
-    // c16
-{ uint16 // c18
-Qty
-    // c19
-, // c20a
-  // c20b
-uint64 clOrdID , // c23a
-  // c23b
-repeat // c24a
-  // c24b
-i64
-    // c25
-Flags
-    // c26
-, // c27a
-  // c27b
-}
-    // c28
-packet
-    // c29
-Ack // c30
-{ // c31a
-  // c31b
-zchar[
-    // c32
-7 ] // c34a
-  // c34b
-clOrdID , u64 // c37a
-  // c37b
-lastPx // c38
-, // c39
-char[] // c40a
-  // c40b
-Note // c41a
-  // c41b
-, // c42a
-  // c42b
-repeat Fill
-    // c44
+    // 50% %s
+    options { f32a = ""// no comment"" ;
+    crc
+= ' '/// triple
+As // " ++ [128512]%N ++ runes_of_ascii " emoji
+='\x00' Packet
+    =
+u64; Logon
+    =false; } packet Logon {@lengthOf( zchar
+    ) zchar[ 007 ]x // 50% %s
 ,
-    // c45
-int32 // c46
-count // c47a
-  // c47b
-, // c48
-} packet Quote { // c52a
-  // c52b
-u8 venue ,
-    // c55
-InRef40
-    // c56
-{
-    // c57
-char[] // c58a
-  // c58b
-Qty // c59
-,
-    // c60
-} // c61a
-  // c61b
-, // c62a
-  // c62b
-zchar[
-    // c63
-5 // c64a
-  // c64b
-] Flags // c66a
-  // c66b
-,
-    // c67
-@rightPad // c68a
-  // c68b
-( // c69a
-  // c69b
-'\x00' // c70a
-  // c70b
-) // c71a
-  // c71b
-char[ // c72a
-  // c72b
-12 // c73a
-  // c73b
-]
-    // c74
-msgKind // c75a
-  // c75b
-, // c76
-} // c77a
-  // c77b
-packet Logout // c79
-{ InSym79 // c81
-{
-    // c82
-int32 Qty // c84a
-  // c84b
-, // c85
-Fill
-    // c86
-, char[ 3 // c89
-] // c90
-x ,
-    // c92
-repeat // c93
-InNote29 // c94
-{ // c95a
-  // c95b
-i16 // c96
-price
-    // c97
-,
-    // c98
-Ack // c99a
-  // c99b
-, // c100a
-  // c100b
-f64 x , zchar[
-    // c104
-8
-    // c105
-]
-    // c106
-count , // c108
-}
-    // c109
-, // c110
-} // c111
-,
-    // c112
-} root // c114a
-  // c114b
-packet // c115a
-  // c115b
-Logon {
-    // c117
-zchar[ 1 // c119
-] // c120a
-  // c120b
-sym // c121
-,
-    // c122
-u32 // c123a
-  // c123b
-count // c124
-, u16
-    // c126
-tag7 @lengthOf(
-    // c128
-Body // c129a
-  // c129b
-) // c130a
-  // c130b
-,
-    // c131
-match // c132
-count as
-    // c134
-Body { // c136
-[
-    // c137
-122 // c138
-,
-    // c139
-152
-    // c140
-] // c141a
-  // c141b
-: Ack
-    // c143
-, 118
-    // c145
-: // c146
-Logout
-    // c147
-, // c148a
-  // c148b
-61 // c149
-: // c150a
-  // c150b
-Quote , // c152
-161 // c153
-: // c154
-Fill // c155a
-  // c155b
-, // c156
-} // c157
-, u32 // c159a
-  // c159b
-Acct
-    // c160
-@calculatedFrom( // c161
-""CRC32"" ) // c163a
-  // c163b
-, } ")).
-Eval vm_compute in ("<<<M322>>>" ++ check (runes_of_ascii "
-packet
-metadata {
-i8 BodyLength,
-asx `two words`  ,char[ 0123456789] asx`" ++ [28040; 24687; 31867; 22411]%N ++ runes_of_ascii "`// " ++ [128512]%N ++ runes_of_ascii " emoji
-, @tag(
-42/// triple
-)
-    repeat	charz `crlf
-line` ,
-body ,@tag( 65535  ) match
-    // " ++ [128512]%N ++ runes_of_ascii " emoji
-    Pad as x_y_z  { ""{,}"" :
-u , } ,
-    repeat Foo
-    {repeat pack {
-// `tick` ""quote"" 'q'
-// `tick` ""quote"" 'q'
-f32 calculatedFrom
-    @lengthOf( options1
-    )
-,
-//x
-// c
-}
-, int32 Header @calculatedFrom(""a	b"")
-, char[]
-zchar
-    `
-`
-    ,
-    zchar[00 ]a1 @calculatedFrom(
-    // c
-    ""{,}"") `crlf
-line` , }
-,
-    body zchar ,i64_ @calculatedFrom( ""a\\""  )
-, // " ++ [27880; 37322]%N ++ runes_of_ascii "
-match
-/// triple
-// " ++ [27880; 37322]%N ++ runes_of_ascii "
-zchar
-as zchar {	1 : u128
-    ,
-255
-: packetx, [""{,}"" ,""// no comment"",  0 , 65535 ,  3 ] :  u8x, 0123456789:  calculatedFrom // `tick` ""quote"" 'q'
-, 10 : Header	,
-}
-    ,
-}packet string_
-{ @tag( 10 ) T, @calculatedFrom(""CRC32""//	t
-)@lengthOf(charz )@lengthOf(
-zchar) zchar[
-42
-    ] // a // b
-a1 `" ++ [233]%N ++ runes_of_ascii "` , int32 x `two words` //
-, float32 repeatCount ,
-    //
-    @lengthOf(
-    Packet) @rightPad('0'	) // @lengthOf(
-@calculatedFrom(""a\""b"") zchar[ 0 ]	repeatCount @lengthOf(
-BodyLength  ) // trailing space 
-, float,
-repeat
-zchar
-// trailing space 
-//x
-,} root packet body
-{  @lengthOf(msg_type) repeat
-    u128 {// trailing space 
-char[
-// " ++ [128512]%N ++ runes_of_ascii " emoji
-//
-0123456789 ]options1
-,
-}	, //	t
-f64
-    u128`it's`	,// @lengthOf(
-repeat  i64 charz ,
-@calculatedFrom( """ ++ [128512]%N ++ runes_of_ascii """ )
-    repeat char
-    roots, } packet
-metadata // @lengthOf(
-{ // trailing space 
-@lengthOf( // packet A { u8 x, }
-BodyLength ) @tag( 4294967296  ) f32a
-A
-, } MetaData u128 { } //")).
-Eval vm_compute in ("<<<M1533>>>" ++ check (runes_of_ascii "options {
-    StringPrefixLenType = u16;
-    ArrayPrefixLenType = u8;
-    FixedStringPadFromLeft = true;
-    FixedStringPadChar = ' ';
-}
-packet Quote {
-    int64 OrderId,
-    char[] Ref,
-    @leftPad('0') char[5] price,
-}
-packet Heartbeat {
-    zchar[3] venue,
-    string Flags,
-}
-packet Trade {
-    repeat InTag787 {
-        i32 venue,
-        char[5] sym,
-        repeat InPx98 {
-            char[11] Qty,
-            Heartbeat,
-            char[] price,
-            u32 x,
-            float64 count,
-            repeat Quote,
-        },
-        zchar[7] Note,
-        repeat char[1] Tail,
-    },
-    repeat char[2] seqNo,
-    InTail55 {
-        repeat Quote,
-        string msgKind,
-        InPx18 {
-            char[] count,
-            repeat Quote,
-            uint16 Qty,
-        },
-        char[4] seqNo,
-        repeat Heartbeat,
-        repeat string sym,
-    },
-    repeat Quote,
-    Heartbeat,
-    @leftPad(' ') char[10] OrderId,
-}
-root packet Fill {
-    Heartbeat,
-    uint32 count,
-    u8 OrderId,
-    match OrderId as Body {
-        96 : Quote,
-        195 : Trade,
-        187 : Heartbeat,
-    },
-    u32 venue @calculatedFrom(""CRC32""),
-}
-")).
-Eval vm_compute in ("<<<M204>>>" ++ check (runes_of_ascii "options {
-chars  =
-    //x
-    ' '	}
-root packet	string_ {i8i8 @lengthOf(
-Z9_ )
-,	match int as chars // c
-{ 007: body	,[ // packet A { u8 x, }
-42 ] : int	, ""`tick`"" : options1
-, } ,
-@leftPad ( ' ' )uint16 crc `it's` , // a // b
-float64  packetx
-@lengthOf( crc // " ++ [27880; 37322]%N ++ runes_of_ascii "
-)// trailing space 
-, @tag(4294967296
-) match int
-as chars{4294967296
-    : Foo ,
-1:
-asx 10
-: Pad
-    0123456789	: string_
-,
-3
-// " ++ [27880; 37322]%N ++ runes_of_ascii "
-// " ++ [128512]%N ++ runes_of_ascii " emoji
-: T , ""it's""  : As  } , repeat  float falsey `say ""hi""`  ,
-match uint8x as zchar { ""// no comment""
-    : body
-, 0123456789 : crc , ""{,}"" : o } ,repeat o chars ,uint32
-As
-`doc` ,
-repeat trueish
-{ char[
-    7
-] i64_
-`{ , }`  , }
-, } packet
-    Packet {
-zchar[ 0123456789 ] matchKey @lengthOf( chars
-)  ,  x
-//	t
-// a // b
-{
-u64 o ,} , zchar[
-    // a // b
-    1 ]
-    MetaDataX
-@calculatedFrom(
-"""" ), char[]lengthOf// trailing space 
-@calculatedFrom( // " ++ [27880; 37322]%N ++ runes_of_ascii "
-""a\""b""
-) `
-` ,@rightPad( ' ' ) //	t
-uint16
-len `a\` , @lengthOf( //x
-tag )
-char[ 65535
-] pack ``, }
-")).
-Eval vm_compute in ("<<<M1980>>>" ++ check (runes_of_ascii "packet _x {
-
-    u , @lengthOf(	len
-)
-    match
-    f32a	as
-Pad {
-
-    ""packet"":
-
-metadata ,	""CRC32""  :x_y_z
-
-    [
-""abc""
-,""{,}""
-    ] :
-Logon
-
-    ,}
-    // c
-      ,
-
-zchar[
-7 ]
-
-    a1
-
-    ,  @tag(
-
-65535  ) @tag(
-
-0123456789 )
-	//x
-	@lengthOf(asx
-) repeat
-i16 	 // @lengthOf(
-    tag
-
-    `{ , }`  // `tick` ""quote"" 'q'
-	,
-@leftPad	(
-
-'\x00'
-)
-
-match  i64_ as x{
-0
-	:
-crc
-,
-	[ 
-    //	t
-// trailing space 
-      ""// no comment""
-
-    ]  :
-	uint8x, 42
-    // a // b
-  // trailing space 
-    :
-string_ , 
-007:
-	trueish
-	, [
-
-10
-
-] // " ++ [128512]%N ++ runes_of_ascii " emoji
-    	: 
-rootA
-
-""" ++ [28040; 24687]%N ++ runes_of_ascii """ :// trailing space 
-  len ,	}	//
-
-  ,	@rightPad 
-('\x00'	// trailing space 
-) 
-@tag(
-//
-      00
-
-)@calculatedFrom(	""" ++ [233]%N ++ runes_of_ascii "t" ++ [233]%N ++ runes_of_ascii """
-    )  // c
-    char[]
-
-float@calculatedFrom(
-""\n"" ) ,repeat
-f32 trueish
-`crlf
-line`
-, } // @lengthOf(
- 
-")).
-Eval vm_compute in ("<<<M1583>>>" ++ check (runes_of_ascii "// top
-options
-    // c0
-{ // c1
-LittleEndian =
-    // c3
-true // c4a
-  // c4b
-; } // c6a
-  // c6b
-packet // c7a
-  // c7b
-Sub // c8a
-  // c8b
-{
-    // c9
-u8 a // c11a
-  // c11b
-, @calculatedFrom( // c13a
-  // c13b
-""CRC16"" // c14a
-  // c14b
-)
-    // c15
-u64
-    // c16
-SubSum , } // c19a
-  // c19b
-root
-    // c20
-packet // c21
-Frame // c22
-{
-    // c23
-u16 MsgType // c25
-, // c26a
-  // c26b
-u16 // c27
-BodyLen
-    // c28
-@lengthOf(
-    // c29
-Body // c30a
-  // c30b
-) // c31
-, Sub // c33
-Body // c34
-, string
-    // c36
-note // c37a
-  // c37b
-, // c38
-@calculatedFrom( ""CRC16"" // c40a
-  // c40b
-) // c41
-u64 Checksum // c43a
-  // c43b
-,
-    // c44
-u8 tail // c46
-, // c47a
-  // c47b
-}
-    // c48
-")).
-Eval vm_compute in ("<<<M186>>>" ++ check (runes_of_ascii "packet Packet { @tag(	65535 ) @leftPad ( ' '
-    )
-@tag( 255
-    /// triple
-    )
-    uint8
-len
-    @lengthOf( T), int32 u8x , @lengthOf( rootA )float32 i64_
-`u8 x,` , } packet// c
-int { repeat	i8i8
-{lengthOf
-    @lengthOf( int)`line1
-line2`
-, string	falsey `
-` ,uint16
-// `tick` ""quote"" 'q'
-// trailing space 
-roots
-@lengthOf(
-charz), } , }options
-    { Foo = ' '	len  = """ ++ [128512]%N ++ runes_of_ascii """
-; chars= u64 ;
-//x
-//
-uint8x // a // b
-=	""" ++ [128512]%N ++ runes_of_ascii """
-    // trailing space 
-    ;metadata= ' ' ; }
+@rightPad
+( ' '
+) match matchKey as zchar { 0: f32a
+,[ ""x y""
     // " ++ [27880; 37322]%N ++ runes_of_ascii "
-    MetaData Header
-    // " ++ [27880; 37322]%N ++ runes_of_ascii "
-    {
-i16
-    matchKey,Packet Packet `u8 x,`  , }packet u128 {uint8x
-@lengthOf(charz) `u8 x,`	, }
-")).
-Eval vm_compute in ("<<<M157>>>" ++ check (runes_of_ascii "root
-packet o { @leftPad (
-    '0'  )repeat uint16 o // `tick` ""quote"" 'q'
-,// `tick` ""quote"" 'q'
-@tag( 1
-    // `tick` ""quote"" 'q'
-    )
-//x
-// " ++ [128512]%N ++ runes_of_ascii " emoji
-@tag( 65535 ) u32 options1 ,@lengthOf( i8i8) @lengthOf(int ) @leftPad// " ++ [27880; 37322]%N ++ runes_of_ascii "
-() char[  42 ] len @calculatedFrom( ""packet"" ) ,
-    u32 Foo @calculatedFrom( ""a\\"") ,
-    } packet a1 {@lengthOf(
-    A /// triple
-)	Foo MetaDataX `it's`, Z9_ metadata
-    //
-    `" ++ [28040; 24687; 31867; 22411]%N ++ runes_of_ascii "` ,
-match MetaDataX
-    as falsey { [ 42
-    ]
-    :body // " ++ [128512]%N ++ runes_of_ascii " emoji
-[""packet""	, 4294967296]
-    :  A} , Z9_ ,}")).
-Eval vm_compute in ("<<<M1466>>>" ++ check (runes_of_ascii "// top
-options // c0
-{ // c1a
-  // c1b
-LittleEndian =
-    // c3
-true // c4a
-  // c4b
-;
-    // c5
-} // c6a
-  // c6b
-packet
-    // c7
-B // c8
-{
-    // c9
-u8 // c10
-a // c11
-, // c12
-string
-    // c13
-s // c14a
-  // c14b
-, // c15
-}
-    // c16
-root
-    // c17
-packet // c18
-P // c19
-{ // c20
-u16 // c21a
-  // c21b
-L // c22a
-  // c22b
-@lengthOf( // c23
-B // c24a
-  // c24b
-)
-    // c25
-, B
-    // c27
-,
-    // c28
-u8
-    // c29
-t , // c31a
-  // c31b
-} // c32
-")).
-Eval vm_compute in ("<<<M328>>>" ++ check (runes_of_ascii "packet string_ { @lengthOf( int) BodyLength u8x,i64_ `tab	here`
-// " ++ [128512]%N ++ runes_of_ascii " emoji
+    ,
+""" ++ [233]%N ++ runes_of_ascii "t" ++ [233]%N ++ runes_of_ascii """ ,42 // packet A { u8 x, }
+, ""it's"" , 00
+    // c
+    ,7
+,	""" ++ [128512]%N ++ runes_of_ascii """, """ ++ [233]%N ++ runes_of_ascii "t" ++ [233]%N ++ runes_of_ascii """ ] :
+    falsey [4294967296 ]// @lengthOf(
+:
+    pack,  [ ""a	b"" , 42
+,	10
+// " ++ [27880; 37322]%N ++ runes_of_ascii "
+// `tick` ""quote"" 'q'
+, ""abc"", ""{,}""  , ""{,}"" ]: //	t
+f32a[ 00 ,
+// packet A { u8 x, }
 // @lengthOf(
-,char[  3 ] /// triple
-string_  ,repeat leftPad `" ++ [28040; 24687; 31867; 22411]%N ++ runes_of_ascii "`  ,
-repeat int32
-/// triple
-// `tick` ""quote"" 'q'
-BodyLength`u8 x,`, // `tick` ""quote"" 'q'
-@tag( 4294967296
-) BodyLength	`crlf
-line`
-    ,  msg_type Packet `" ++ [233]%N ++ runes_of_ascii "`
-    , float32 string_ // trailing space 
-@calculatedFrom(""""  )
-, asx int
-    `it's` , }
-")).
-Eval vm_compute in ("<<<M1806>>>" ++ check (runes_of_ascii "options	{
-}
-    root 
-
-// a // b
-
-packet
-x  //	t
-{	match len
-
-    as x { [ 7 ,
-
-42
+""// no comment"",0
 ,
-007 , 	 //x
-      255 	 // trailing space 
-    ,""// no comment""
-	    // `tick` ""quote"" 'q'
-	// " ++ [128512]%N ++ runes_of_ascii " emoji
+    //	t
+    10	, ""packet""
+    ,
+    //
+    ""x y"" ] :packetx
+, 007 : float  } ,
+// @lengthOf(
+// packet A { u8 x, }
+@tag( 10 ) u32
+zchar @lengthOf(
+u8x )
+    , @lengthOf(
+    // c
+    tag) zchar[ 7
     ]
+_x ,
+@tag( 65535 ) tag {//
+uint8x repeatCount , match packetx
+as zchar {
+    [
+""" ++ [128512]%N ++ runes_of_ascii """ , // " ++ [27880; 37322]%N ++ runes_of_ascii "
+007
+    // `tick` ""quote"" 'q'
+    ] :leftPad 7
+    : zchar
+,
+""packet"": lengthOf },}
+// trailing space 
+// @lengthOf(
+, zchar[ 3 ] pack
+@lengthOf(
+T  ) , repeat A charz
+, repeat
+    // " ++ [128512]%N ++ runes_of_ascii " emoji
+    charz `100% of %d` ,	@tag( 007)@tag(	00 )@calculatedFrom(
+    ""abc"") repeat
+u64 repeatCount`doc` , // `tick` ""quote"" 'q'
+stringy  `{ , }` , } packet	crc
+    { i16
+metadata // " ++ [128512]%N ++ runes_of_ascii " emoji
+, match
+    string_ as  float{
+    42: rootA
+    , 65535 :
+roots 00 : As,
+    [//x
+""// no comment""
+    /// triple
+    ,
+    0123456789 ] : // " ++ [128512]%N ++ runes_of_ascii " emoji
+options1, // a // b
+00: BodyLength, }, repeat x{
+repeat
+o i8i8
+// packet A { u8 x, }
+// @lengthOf(
+`" ++ [233]%N ++ runes_of_ascii "`
+    // a // b
+    ,} , match string_
+as
+    Z9_ { ""abc"" : a1, [ 42
+, 255//	t
+,
+    3 , ""a	b"" , ""\" ++ [233]%N ++ runes_of_ascii """ ]
+: /// triple
+MetaDataX, 3 :
+    //x
+    matchKey ,
+[ // a // b
+""\" ++ [233]%N ++ runes_of_ascii """
+    ,	1,
+""abc"" , 255 ,	255]:
+string_ ,} ,
+Foo
+{ crc {	char[] stringy @calculatedFrom( ""\" ++ [233]%N ++ runes_of_ascii """
+    // 50% %s
+    )
+    // `tick` ""quote"" 'q'
+    ,
+repeat a1 { char[ 42 ]
+    calculatedFrom @calculatedFrom( ""a\\""),
+}
+    ,float64 Packet `crlf
+line`
+, }, As { zchar @calculatedFrom( ""a\\"" ) , }, } //	t
+, int16 string_ //x
+@calculatedFrom( ""// no comment"" ) `" ++ [28040; 24687; 31867; 22411]%N ++ runes_of_ascii "` , repeat x `
+`
+, //
+zchar[ 65535	] i64_ ,
+    } 	 ")).
+Eval vm_compute in ("<<<M3526>>>" ++ check (runes_of_ascii "packet i8i8 {
+    u32 T @lengthOf(MetaDataX) `u8 x,`,// c
+    As @calculatedFrom(""abc""),
+    @leftPad(' ')
+    @calculatedFrom(""" ++ [128512]%N ++ runes_of_ascii """)
+    chars,// `tick` ""quote"" 'q'
+    zchar[255] zchar,
+    Packet asx,
+    // " ++ [128512]%N ++ runes_of_ascii " emoji
+    // packet A { u8 x, }
+    Z9_ charz,
+    uint64 packetx,
+    @tag(3)
+    @calculatedFrom(""abc"")
+    @tag(007)
+    repeat BodyLength lengthOf,
+}
 
+packet pack {
+    @lengthOf(rootA)
+    @tag(7)
+    @rightPad(' ')
+    body x_y_z,
+    a1 {
+        f32 crc @lengthOf(repeatCount),
+        lengthOf int `" ++ [28040; 24687; 31867; 22411]%N ++ runes_of_ascii "`,
+        match pack as repeatCount {
+            ""1"" : calculatedFrom,
+            4294967296 : charz,
+        },
+    },
+    @tag(255)
+    @lengthOf(float)
+    repeat i32 options1,
+    @lengthOf(msg_type)
+    @leftPad()
+    @lengthOf(body)
+    uint8x body,
+}
+
+root packet x {
+    @tag(7)
+    repeat f32a rootA `line1
+        line2`,
+    @leftPad('\x00')
+    @calculatedFrom(""it's"")
+    @lengthOf(i64_)
+    // packet A { u8 x, }
+    // " ++ [27880; 37322]%N ++ runes_of_ascii "
+    repeat roots {
+        metadata {
+            repeat calculatedFrom {
+                f32 x,
+                uint64 A,
+                match leftPad as Pad {
+                    ""a	b"" : leftPad,
+                    255 : u8x,
+                },
+            },
+        },// c
+        repeat char[0123456789] falsey,
+        char[0] trueish @calculatedFrom(""packet""),
+        int16 repeatCount,
+    },
+    Packet @lengthOf(int) `line1
+        line2`,
+    uint16 i64_,
+    Header {
+        // 50% %s
+        string metadata,
+        // `tick` ""quote"" 'q'
+        repeat Pad pack,
+        crc @lengthOf(Z9_) `" ++ [233]%N ++ runes_of_ascii "`,
+    },
+    @lengthOf(x_y_z)
+    @lengthOf(A)
+    @tag(65535)
+    int8 Logon @calculatedFrom(""`tick`"") `line1
+        line2`,
+    @calculatedFrom(""packet"")
+    u8x Foo `100% of %d`,
+    roots @calculatedFrom(""\n""),
+    x_y_z {
+        zchar[42] charz @lengthOf(u128),
+        leftPad `say ""hi""`,
+    },
+}")).
+Eval vm_compute in ("<<<M4188>>>" ++ check (runes_of_ascii "
+
+  root
+packet
+Packet{
+
+    repeat
+u8  Header
+, Header
+
+,
+	char 
+msg_type	,
+float64 msg_type `two words` , 
+    //	t
+
+// packet A { u8 x, }
+@leftPad  (
+
+    )repeat  metadata{	matchKey	{ match	MetaDataX
+    as
+float
+// `tick` ""quote"" 'q'
+  //
+
+{ ""a	b""
 :
 
-x_y_z ,""`tick`""
-    :u128,
-    3:	string_ 
-  /// triple
-		,
-[ ""CRC32"" 
-]
-    : trueish,
-
-4294967296 :	Foo
+    zchar
 ,
+	0123456789:
 
-    [
-0] : lengthOf
-}
+    msg_type
 
-    ,
-
-}")).
-Eval vm_compute in ("<<<M1738>>>" ++ check (runes_of_ascii "
-options
-    {	charz 
-= ""x y""	calculatedFrom ='0'
-}  packet 
-msg_type{ msg_type  asx	,
-	string // packet A { u8 x, }
-    packetx
-	,
-MetaDataX
-    ,Header
-    { 
-i64 packetx`tab	here`
-, } , } options{ // @lengthOf(
-	uint8x
-
-    =
-    0
-
-    x_y_z
-=""x y""  
-      // packet A { u8 x, }
-
-	//	t
-  ;
-    }
-")).
-Eval vm_compute in ("<<<M238>>>" ++ check (runes_of_ascii "MetaData
-    a1 { // a // b
-}options { o
-= 255
-; } packet f32a //
-{ uint8 _x	@calculatedFrom( ""x y""
-)	,}MetaData
-    options1
-{  f64 lengthOf `it's`
-,lengthOf metadata,	int8 crc
-`
-` /// triple
-,
-    char[0123456789//	t
-]o ,
-// " ++ [128512]%N ++ runes_of_ascii " emoji
-// packet A { u8 x, }
-char[] //	t
-a1,}
-")).
-Eval vm_compute in ("<<<M524>>>" ++ check (runes_of_ascii "root packet tag { }  packet MetaDataX{char[007 007	]
-// c
-/// triple
-asx  @calculatedFrom( ""a\""b""
-) `say ""hi""`// " ++ [27880; 37322]%N ++ runes_of_ascii "
-,  @tag(4294967296 )
-    char[1//x
-] packetx @calculatedFrom(""a\""b""
-    ) ,
-// " ++ [128512]%N ++ runes_of_ascii " emoji
-// a // b
-@calculatedFrom(""" ++ [233]%N ++ runes_of_ascii "t" ++ [233]%N ++ runes_of_ascii """  ) repeat pack // " ++ [27880; 37322]%N ++ runes_of_ascii "
-,
-    } // c")).
-Eval vm_compute in ("<<<M1634>>>" ++ check (runes_of_ascii "packet Foo {
-    @calculatedFrom("""")
-    @calculatedFrom(""1"")
-    @rightPad()
-    int32 As @calculatedFrom("""") `say ""hi""`,
-    @calculatedFrom(""\n"")
-    // trailing space 
-    /// triple
-    char[65535] asx,
-    repeat int8 trueish `{ , }`,
-}
-
-root packet lengthOf {
-}")).
-Eval vm_compute in ("<<<M521>>>" ++ check (runes_of_ascii "root packet tag { }  packet MetaDataX{true 007	]
-// c
-/// triple
-asx  @calculatedFrom( ""a\""b""
-) `say ""hi""`// " ++ [27880; 37322]%N ++ runes_of_ascii "
-,  @tag(4294967296 )
-    char[1//x
-] packetx @calculatedFrom(""a\""b""
-    ) ,
-// " ++ [128512]%N ++ runes_of_ascii " emoji
-// a // b
-@calculatedFrom(""" ++ [233]%N ++ runes_of_ascii "t" ++ [233]%N ++ runes_of_ascii """  ) repeat pack // " ++ [27880; 37322]%N ++ runes_of_ascii "
-,
-    } // c")).
-Eval vm_compute in ("<<<M573>>>" ++ check (runes_of_ascii "root packet tag { }  packet MetaDataX{char[007	]
-// c
-/// triple
-asx  @calculatedFrom( ""a\""b""
-) `say ""hi""`// " ++ [27880; 37322]%N ++ runes_of_ascii "
-,  @tag(4294967296 
-    char[1//x
-] packetx @calculatedFrom(""a\""b""
-    ) ,
-// " ++ [128512]%N ++ runes_of_ascii " emoji
-// a // b
-@calculatedFrom(""" ++ [233]%N ++ runes_of_ascii "t" ++ [233]%N ++ runes_of_ascii """  ) repeat pack // " ++ [27880; 37322]%N ++ runes_of_ascii "
-,
-    } // c")).
-Eval vm_compute in ("<<<M556>>>" ++ check (runes_of_ascii "root packet tag { }  packet MetaDataX{char[007	]
-// c
-/// triple
-asx  @calculatedFrom( ""a\""b""
-) char[// " ++ [27880; 37322]%N ++ runes_of_ascii "
-,  @tag(4294967296 )
-    char[1//x
-] packetx @calculatedFrom(""a\""b""
-    ) ,
-// " ++ [128512]%N ++ runes_of_ascii " emoji
-// a // b
-@calculatedFrom(""" ++ [233]%N ++ runes_of_ascii "t" ++ [233]%N ++ runes_of_ascii """  ) repeat pack // " ++ [27880; 37322]%N ++ runes_of_ascii "
-,
-    } // c")).
-Eval vm_compute in ("<<<M1542>>>" ++ check (runes_of_ascii "
-options
-
-    {StringPrefixLenType = u16;
-
-FixedStringPadChar 
-=
-
-' ' 
-;}	packet
-Party {} 
-packet  Quote
-{ 
-repeat
-    Party,	repeat
-char[2 ]
-
-f1
-
-    , }
-	packet	Logon
-	{
-}
-root packet Cancel
-
-    { uint16	x ,
-
-    zchar[	6
-]f1
-
-,	}
-")).
-Eval vm_compute in ("<<<M1442>>>" ++ check (runes_of_ascii "options {
-    // c1
-LittleEndian // c2
-= true
-    // c4
-;
-    // c5
-} // c6
-root // c7a
-  // c7b
-packet
-    // c8
-P { repeat // c11a
-  // c11b
-char
-    // c12
-cs
-    // c13
-, u8 x // c16
-,
-    // c17
-} // c18a
-  // c18b
-")).
-Eval vm_compute in ("<<<M193>>>" ++ check (runes_of_ascii "MetaData
-    Header { }MetaData Logon {// trailing space 
-int32 falsey ,// " ++ [27880; 37322]%N ++ runes_of_ascii "
-packetx
-_x ,
-char[] Logon`two words`
-,
-    matchKey packetx ,
-    u32 u // packet A { u8 x, }
-,	i64 float `it's`
-, }
-")).
-Eval vm_compute in ("<<<M1486>>>" ++ check (runes_of_ascii "// top
-root // c0
-packet // c1
-P // c2a
-  // c2b
-{ u8 // c4
-s_u8 // c5
-, // c6a
-  // c6b
-repeat // c7a
-  // c7b
-u8 r_u8
-    // c9
-, // c10a
-  // c10b
-u16 b_len , } // c14a
-  // c14b
-")).
-Eval vm_compute in ("<<<M717>>>" ++ check (runes_of_ascii "root packet len // trailing space 
-{
-// " ++ [27880; 37322]%N ++ runes_of_ascii "
-//	t
-char[10
-] metadata	@lengthOf( o ) `crlf
-line`,
-    @rightPad
-( ' '
-match string
-    Header @calculatedFrom( ""a\\""
-    ), }
-")).
-Eval vm_compute in ("<<<M465>>>" ++ check (runes_of_ascii "packet
-    // `tick` ""quote"" 'q'
-    crc
-// packet A { u8 x, }
-//	t
-{
-u32 a1 ,
-    // trailing space 
-    roots
-charz /`/
-`two words`,	}
-    MetaData int {
-} /// triple")).
-Eval vm_compute in ("<<<M680>>>" ++ check (runes_of_ascii "root packet len // trailing space 
-{
-// " ++ [27880; 37322]%N ++ runes_of_ascii "
-//	t
-char[10
-] metadata	@lengthOf( o ) ,`crlf
-line`
-    @rightPad
-( ' '
-) string
-    Header @calculatedFrom( ""a\\""
-    ), }
-")).
-Eval vm_compute in ("<<<M2064>>>" ++ check (runes_of_ascii "  root packet
-matchKey
-
-    {
-zchar[ 3  ]
-pack
-
-@calculatedFrom( ""a	b""
-    )
-`doc`
-,
-} 
-
-    // c
-options
-{ }MetaData
-    A
-
-    {
-int8
+    ,  ""a\""b"":
 
     msg_type
 , 
+    // @lengthOf(
+[ 
+3
+    ]
+
+: 
+BodyLength	,""" ++ [128512]%N ++ runes_of_ascii """:  Pad,  ""`tick`"" :lengthOf
+    ,}
+
+,  u64
+
+BodyLength  `100% of %d`
+,
+	u8x
+
+    @calculatedFrom(
+""it's""
+	)	, 
+}
+,
+	uint8
+len @calculatedFrom(
+
+""\" ++ [233]%N ++ runes_of_ascii """
+)
+	    // a // b
+
+	,	T,
+Z9_ ,} ,
+match 
+Pad // 50% %s
+      as 
+f32a 
+{	65535  :_x}
+
+    ,repeat
+    matchKey `crlf
+line`
+
+, @lengthOf(
+
+    i8i8) f64
+	A@calculatedFrom( ""// no comment""
+)
+
+,
+repeat	zchar[255 ] float
+    ,  }
+	options
+{
+rootA =	i64	// " ++ [128512]%N ++ runes_of_ascii " emoji
+
+	;  }
+
+    packet Pad 
+{ 
+MetaDataX  {  Z9_ @lengthOf( 
+	// " ++ [27880; 37322]%N ++ runes_of_ascii "
+/// triple
+    Packet)``
+	,
+x tag
+    ,
+char[ 
+    //x
+    // `tick` ""quote"" 'q'
+0123456789
+    ]
+
+    matchKey  ,zchar[
+0
+	]
+	u8x  @calculatedFrom(
+    ""\" ++ [233]%N ++ runes_of_ascii """	// 50% %s
+
+)
+
+`" ++ [28040; 24687; 31867; 22411]%N ++ runes_of_ascii "`
+        // 50% %s
+
+,  }
+    // c
+    //
+
+  ,@calculatedFrom( 
+""\" ++ [233]%N ++ runes_of_ascii """)
+
+    body
+
+    @lengthOf(
+
+roots	)	,
+
+f32a
+
+    x
+
+    ,
+    roots
+//	t
+
+	@lengthOf(
+
+    MetaDataX	) `crlf
+line`
+,
+
+    @lengthOf(
+u8x	)
+    f64
+
+    Logon 
+@lengthOf( asx ),
+repeat 
+zchar[3]
+
+    Packet`say ""hi""`
+,	i16 	 // " ++ [27880; 37322]%N ++ runes_of_ascii "
+	x
+@calculatedFrom(
+
+""packet""),
+
+    @rightPad(
+
+    ' ')
+    @lengthOf(a1) stringy packetx
+,  // 50% %s
+    As
+@lengthOf( u128
+) ,
+}
+root 
+packet
+Logon 
+    // c
+	{	Pad
+@calculatedFrom( """"
+)	, }")).
+Eval vm_compute in ("<<<M3531>>>" ++ check (runes_of_ascii "packet
+
+    stringy
+	{ 
+@tag(
+
+3
+
+    )@rightPad 
+(
+	)  //x
+
+  @lengthOf(
+charz
+
+)  i8i8 @lengthOf(
+
+// @lengthOf(
+
+BodyLength) `line1
+line2`
+	,
+
+msg_type @calculatedFrom(
+	""CRC32"" ) ,
+	} packet
+a1	{
+
+repeat 
+i32
+x, 
+i16 msg_type
+    @calculatedFrom(""it's""
+)
+	`crlf
+line`
+    , }packet
+// a // b
+// @lengthOf(
+
+Z9_{ 
+repeat
+	asx  `100% of %d`,  int
+    ,
+    // " ++ [128512]%N ++ runes_of_ascii " emoji
+// " ++ [27880; 37322]%N ++ runes_of_ascii "
+
+  @tag(
+
+10
+	)
+
+int16 Logon
+
+    , i64 roots
+
+`line1
+line2` 
+,
+u64  Pad @calculatedFrom( ""\" ++ [233]%N ++ runes_of_ascii """
+    )	, @leftPad
+	    // " ++ [27880; 37322]%N ++ runes_of_ascii "
+// a // b
+	(
+)
+    @leftPad
+    ( ' '
+
+    )
+
+    @tag(
+	007
+)
+
+    u @calculatedFrom(""" ++ [233]%N ++ runes_of_ascii "t" ++ [233]%N ++ runes_of_ascii """ 
+)
+
+`
+` , }
+packet asx {string i64_
+    @lengthOf(pack
+
+    ),
+	@tag(	10
+
+    )
+
+char[ 1 
+]  T
+	,  repeat
+leftPad
+{
+
+repeat
+
+uint64
+	repeatCount , int64 
+
+// " ++ [27880; 37322]%N ++ runes_of_ascii "
+    // trailing space 
+
+pack 
+`it's`
+,repeat
+
+char[
+
+    255 ]
+	BodyLength
+    ,
+
+} 
+,
+// `tick` ""quote"" 'q'
+    	//	t
+	@lengthOf(  f32a
+	) 
+calculatedFrom
+
+    {
+
+    roots 	 //
+    , match
+
+metadata  as
+
+x_y_z 
+	// 50% %s
+// 50% %s
+    {
+	42
+: metadata [
+
+    ""\n"",
+""a\\"" 
+]
+	:
+
+As [
+
+    0 , """"	, 
+42 
+,
+	4294967296
+    ,
+
+""abc"" ,""CRC32"",
+""a	b"" ,
+007
+	]	: falsey
+,[ ""a	b""
+,	7  ] :  i64_ // @lengthOf(
+      ,	[
+""" ++ [28040; 24687]%N ++ runes_of_ascii """ 
+,
+""{,}""
+,  65535
+
+    ,
+	42
+, ""{,}""  ,
+
+    255, 255]  :	string_  /// triple
+		,
+	7	// a // b
+  : T
+}
+,}
+
+,
+
+    }")).
+Eval vm_compute in ("<<<M1404>>>" ++ check (runes_of_ascii "options {
+	StringPrefixLenType = u16;
+	ArrayPrefixLenType = u16;
+}
+
+packet SampleBinary {
+    uint16 MsgType `" ++ [28040; 24687; 31867; 22411]%N ++ runes_of_ascii "`,
+    u16 BodyLenght @lengthOf(Body) `" ++ [28040; 24687; 20307; 38271; 24230]%N ++ runes_of_ascii "`,
+    match MsgType as Body {
+        1 : Logon,
+        2 : Logout,
+        3 : Heartbeat,
+        4 : RiskControlRequest,
+        5 : RiskControlResponse,
+    },
+        @calculatedFrom(""CRC32"")
+    u32 Ckecksum `" ++ [26657; 39564; 21644]%N ++ runes_of_ascii "`,
+}
+
+packet Logon {
+     @leftPad('0')
+    char[10] UserName `" ++ [29992; 25143; 21517]%N ++ runes_of_ascii "`,
+    string Password `" ++ [23494; 30721]%N ++ runes_of_ascii "`,
+    uint64 ClientId `" ++ [23458; 25143; 31471]%N ++ runes_of_ascii "ID`,
+    u16 HeartbeatInterval `" ++ [24515; 36339; 38388; 38548]%N ++ runes_of_ascii "`,
+}
+
+packet Logout {
+      @rightPad('0')
+    char[10] UserName `" ++ [29992; 25143; 21517]%N ++ runes_of_ascii "`,
+    uint64 ClientId `" ++ [23458; 25143; 31471]%N ++ runes_of_ascii "ID`,
+}
+
+packet Heartbeat {
+}
+
+packet RiskControlRequest {
+    string UniqueOrderId `" ++ [21807; 19968; 35746; 21333; 21495]%N ++ runes_of_ascii "`,
+    char[16] ClOrdID `" ++ [23458; 25143; 35746; 21333; 21495]%N ++ runes_of_ascii "`,
+    char[3] MarketID `" ++ [24066; 22330]%N ++ runes_of_ascii "id`,
+    char[12] SecurityID `" ++ [35777; 21048; 20195; 30721]%N ++ runes_of_ascii "`,
+    char Side `" ++ [20080; 21334; 26041; 21521]%N ++ runes_of_ascii "`,
+    char OrderType `" ++ [35746; 21333; 31867; 22411]%N ++ runes_of_ascii "`,
+    u64 Price `" ++ [20215; 26684]%N ++ runes_of_ascii "`,
+    u32 Qty `" ++ [25968; 37327]%N ++ runes_of_ascii "`,
+    repeat string ExtraInfo `" ++ [38468; 21152; 20449; 24687]%N ++ runes_of_ascii "`,
+    repeat SubOrder {
+    		char[16] ClOrdID `" ++ [23376; 35746; 21333; 21495]%N ++ runes_of_ascii "`,
+    		u64 Price `" ++ [23376; 35746; 21333; 20215; 26684]%N ++ runes_of_ascii "`,
+    		u32 Qty `" ++ [23376; 35746; 21333; 25968; 37327]%N ++ runes_of_ascii "`,
+    	},
+}
+
+packet RiskControlResponse {
+    string UniqueOrderId `" ++ [21807; 19968; 35746; 21333; 21495]%N ++ runes_of_ascii "`,
+    i32 Status `" ++ [29366; 24577]%N ++ runes_of_ascii "`,
+    string Msg `" ++ [32467; 26524; 20449; 24687]%N ++ runes_of_ascii "`,
+    repeat Detail,
+}
+
+packet Detail {
+    string RuleName `" ++ [35268; 21017; 21517; 31216]%N ++ runes_of_ascii "`,
+    u16 Code `" ++ [21407; 22240; 20195; 30721]%N ++ runes_of_ascii "`,
+}")).
+Eval vm_compute in ("<<<M714>>>" ++ check (runes_of_ascii "
+root
+packet T{msg_type ,
+    // " ++ [128512]%N ++ runes_of_ascii " emoji
+    }	root
+    packet // trailing space 
+pack {repeat
+int64 lengthOf ,uint16
+    stringy
+    , @calculatedFrom(""\" ++ [233]%N ++ runes_of_ascii """
+) a1 string_ ,
+repeat packetx tag , // packet A { u8 x, }
+match x as
+Foo {
+[4294967296
+    , """ ++ [28040; 24687]%N ++ runes_of_ascii """ ,65535 , 0 ,
+    ""\n"",	""CRC32"" ] : // " ++ [128512]%N ++ runes_of_ascii " emoji
+falsey , [ ""a\\"" , ""{,}"" , ""`tick`""
+,
+    0,
+""x y""
+]  :len , ""\" ++ [233]%N ++ runes_of_ascii """
+: matchKey ""1"":
+    /// triple
+    packetx
+    , 1 : stringy,
+    } , @rightPad
+(' ' ) @lengthOf( a1	) @tag(
+    65535
+    ) int64 tag@calculatedFrom(""packet"" )`two words`// a // b
+,@leftPad ( ' ') // c
+@leftPad (
+    ) chars{
+    string
+zchar `two words`,
+    match tag	as
+    u8x{ 10 // packet A { u8 x, }
+:chars
+// " ++ [27880; 37322]%N ++ runes_of_ascii "
+// trailing space 
+10
+    : chars
+, [ ""// no comment""
+    ,7
+,	""packet""
+,  ""a	b"" , """", 007
+    , 007
+//
+// a // b
+, ""// no comment""
+]
+: MetaDataX
+,// trailing space 
+}
+,
+    } , // " ++ [27880; 37322]%N ++ runes_of_ascii "
+char[]	u8x @lengthOf(
+Z9_
+) `two words`
+    // " ++ [27880; 37322]%N ++ runes_of_ascii "
+    , @rightPad (
+//	t
+// 50% %s
+' ' )  i32 asx@lengthOf( BodyLength
+), @tag( // 50% %s
+3 )  @calculatedFrom(
+""a\\""
+    )
+// c
+//	t
+@leftPad ('0' )
+    //	t
+    repeat
+    // 50% %s
+    Logon	Logon `it's` ,
 }
 ")).
-Eval vm_compute in ("<<<M318>>>" ++ check (runes_of_ascii "
-MetaData roots {
-As  asx , char[1 ] roots
-,
-    // c
-    char[
-    007]
-    matchKey ,/// triple
-zchar[ 1	] len ,x_y_z
-// trailing space 
-/// triple
-u128 , }")).
-Eval vm_compute in ("<<<M448>>>" ++ check (runes_of_ascii "packet
+Eval vm_compute in ("<<<M129>>>" ++ check (runes_of_ascii "packet u8x {  @calculatedFrom( ""1""
+)
+// 50% %s
+// " ++ [27880; 37322]%N ++ runes_of_ascii "
+repeat	msg_type	{
+repeat f64 Packet
+    `{ , }` ,
+repeat int32 rootA, zchar[ 3 ] // a // b
+metadata ,zchar[00]x_y_z @calculatedFrom(
+""CRC32"" ) ,
+    }, leftPad
+    zchar,@lengthOf( body  ) match Foo as _x {
+// " ++ [128512]%N ++ runes_of_ascii " emoji
+// " ++ [27880; 37322]%N ++ runes_of_ascii "
+""" ++ [28040; 24687]%N ++ runes_of_ascii """
+    : Packet }
+,}	MetaData trueish{
     // `tick` ""quote"" 'q'
-    crc
-// packet A { u8 x, }
-//	t
+    zchar[ 0]
+metadata `two words`
+,
+zchar
+    x_y_z `
+`
+,// " ++ [27880; 37322]%N ++ runes_of_ascii "
+u8x lengthOf , } packet u128 {  @calculatedFrom( ""a\""b"" ) repeat float32 As
+`// not a comment`
+, uint16 BodyLength
+    @calculatedFrom(""a	b"" )  `` ,repeat zchar[
+4294967296 ] stringy // @lengthOf(
+`// not a comment`,@leftPad // 50% %s
+(
+'\x00'/// triple
+) int8 body
+, @lengthOf( stringy )
+roots
+{ zchar[ 10
+] packetx, }
+,@rightPad (  '\x00'
+//
+// " ++ [27880; 37322]%N ++ runes_of_ascii "
+) As uint8x	,
+// @lengthOf(
+// c
+repeat zchar[ 007] Packet,  string int , } packet// a // b
+lengthOf {int64
+u@lengthOf( rootA
+    ) ,repeat pack
+, repeat asx//x
+{match string_ as // packet A { u8 x, }
+Logon { 0123456789 : msg_type
+    , } , repeat
+    // " ++ [27880; 37322]%N ++ runes_of_ascii "
+    rootA `{ , }`
+    ,
+    }
+    , }
+root packet int { }
+")).
+Eval vm_compute in ("<<<M52>>>" ++ check (runes_of_ascii "options  { o =// `tick` ""quote"" 'q'
+true
+// trailing space 
+//x
+;Z9_  =false ; Z9_ =""" ++ [128512]%N ++ runes_of_ascii """;
+    // " ++ [27880; 37322]%N ++ runes_of_ascii "
+    } root packet f32a{  int8 metadata
+,
+@leftPad (
+//x
+// @lengthOf(
+)
+float32	int
+`100% of %d` , } packet float {@calculatedFrom( ""// no comment"") @tag( 65535 ) @lengthOf(
+msg_type ) match
+    u as A
 {
-u32 a1 ,
+[ 007 , 7// a // b
+, ""x y"", 7, ""{,}"" ]: rootA ,
+    """ ++ [128512]%N ++ runes_of_ascii """
+    : packetx 0: i8i8
+, 4294967296 :
+zchar
+, 4294967296
+    :
+x, }
+, float32 uint8x
+// 50% %s
+// c
+, match string_ as packetx { """ ++ [128512]%N ++ runes_of_ascii """: stringy, ""\n""
+    : x
+,""""	:
+zchar , 1 : tag ,
+    3
+: Foo
+// trailing space 
+//x
+,
+[ 00]
+    :  leftPad , // a // b
+},  @calculatedFrom(""1"")
+uint64
+f32a,@calculatedFrom( ""// no comment"" ) char[
+00 ]	trueish	@calculatedFrom( ""a\""b""
+)`// not a comment`, repeatCount// 50% %s
+{
+char /// triple
+charz  ,
+float64 falsey	@lengthOf(
+    chars)  `doc`
+,
+// " ++ [128512]%N ++ runes_of_ascii " emoji
+//
+uint16 crc
+, int32 pack
+    `doc` ,
+}  , //x
+Foo
+    @calculatedFrom(// @lengthOf(
+""a\""b""
+)
+`
+`
     // trailing space 
-    roots
-charz //
-`two words`,	}
-    MetaData")).
-Eval vm_compute in ("<<<M2121>>>" ++ check (runes_of_ascii "packet A {
-    match k as n {
-        [
-            1, 22, ""c c"", 4, 5,
-            ""f"", 7, 8, ""i"", 10
-        ] : B,
-        2 : C,
+    , zchar @lengthOf(
+body ) , }
+
+")).
+Eval vm_compute in ("<<<M3680>>>" ++ check (runes_of_ascii "MetaData tag {
+    u16 leftPad `doc`,
+    chars _x `say ""hi""`,
+}// @lengthOf(
+
+root packet crc {
+    packetx o `// not a comment`,
+    char[] matchKey,
+    @leftPad()
+    repeat repeatCount `a\`,
+    @leftPad('0')
+    Header {
+        match rootA as packetx {
+            """" : options1,
+            [""CRC32"", ""packet"", ""1""] : x,
+            [""`tick`""] : len,
+        },
     },
-}")).
-Eval vm_compute in ("<<<M1967>>>" ++ check (runes_of_ascii "packet A {
-    match k as n {
-        [
-            1, 22, 007, 4, 5,
-            66, 7, 8, 9
-        ] : B,
-        2 : C,
+}
+
+packet roots {
+    //x
+    @tag(1)
+    charz,
+    // @lengthOf(
+    //x
+    int32 msg_type,
+    @lengthOf(matchKey)
+    @calculatedFrom(""a\\"")
+    repeat trueish {
+        u x,
     },
+    i32 msg_type,
+    match trueish as rootA {
+        """" : f32a,
+    },
+    @lengthOf(repeatCount)
+    i64 packetx @lengthOf(i64_),
+    repeat i32 o `// not a comment`,
+    @tag(42)
+    @calculatedFrom(""1"")
+    @lengthOf(crc)
+    //
+    A o `two words`,
+    repeat i64_,
+    chars `" ++ [233]%N ++ runes_of_ascii "`,
+}
+
+options {
+    A = ""CRC32""
+}
+
+MetaData u8x {
+    u8 string_ `line1
+    line2`,
+    BodyLength i8i8 `" ++ [28040; 24687; 31867; 22411]%N ++ runes_of_ascii "`,
 }")).
-Eval vm_compute in ("<<<M1667>>>" ++ check (runes_of_ascii "packet A {
+Eval vm_compute in ("<<<M3914>>>" ++ check (runes_of_ascii "
+MetaData
+BodyLength {zchar[  1
+	]MetaDataX,
+
+    } options {  } 
+  // 50% %s
+// @lengthOf(
+	  options{  options1	= true 
+; falsey = '0' 
+;
+Foo = 
+""packet""
+
+u // " ++ [27880; 37322]%N ++ runes_of_ascii "
+
+= ""// no comment"" 	 /// triple
+		; }
+
+    packet
+matchKey
+
+    { @lengthOf( zchar
+
+    ) char[]
+    u8x@lengthOf(
+	len  ) 
+`// not a comment`
+,
+    @tag( 42 )
+    @rightPad
+    // @lengthOf(
+
+// `tick` ""quote"" 'q'
+    (  '0') @rightPad( 
+'0' )
+repeat  // trailing space 
+      char[]
+zchar
+,
+
+repeat pack
+,
+@leftPad
+	// packet A { u8 x, }
+      (
+
+'\x00'/// triple
+	)f32a @calculatedFrom(
+
+    ""a	b"")  `a\`, 
+@lengthOf(	x_y_z
+)uint8
+
+    _x
+
+    @calculatedFrom(
+//x
+	// c
+    """ ++ [233]%N ++ runes_of_ascii "t" ++ [233]%N ++ runes_of_ascii """ 
+)
+
+, _x
+
+{ 
+repeat char[ 10]f32a ,} 
+,
+	uint16	len 
+,} MetaData
+    charz  {
+    char[]	o, uint8x
+	tag`crlf
+line` ,Header
+    i64_ , metadata 
+MetaDataX
+    `a\`
+	, zchar[	255  ]calculatedFrom
+
+,u16 Foo`tab	here` 
+, 	 // trailing space 
+  }
+
+")).
+Eval vm_compute in ("<<<M263>>>" ++ check (runes_of_ascii "packet calculatedFrom
+    { // @lengthOf(
+repeat uint64 i8i8 // 50% %s
+, @lengthOf(matchKey
+)
+    float32 Logon
+    `crlf
+line` , @calculatedFrom( // trailing space 
+"""" )  char[ 42  ]
+uint8x , options1 // a // b
+{ char[]	chars @lengthOf( // " ++ [128512]%N ++ runes_of_ascii " emoji
+u
+    // `tick` ""quote"" 'q'
+    ) , match // " ++ [27880; 37322]%N ++ runes_of_ascii "
+zchar as pack
+    {
+    [
+    ""1""
+, """ ++ [233]%N ++ runes_of_ascii "t" ++ [233]%N ++ runes_of_ascii """ ]	: x
+, 3  : u  ,0// 50% %s
+: f32a , 007// c
+:A
+, 7 : // c
+As 3 :
+T  , } ,	} , }
+    options{ //	t
+BodyLength
+    =
+00
+// trailing space 
+// a // b
+} options
+    // c
+    {pack = ""x y"" body
+    = true; charz
+    = zchar[ 4294967296 ]
+;// " ++ [27880; 37322]%N ++ runes_of_ascii "
+metadata
+=
+    string
+    }
+MetaData a1 { uint64 Z9_ ,
+    asx Z9_
+`" ++ [233]%N ++ runes_of_ascii "`
+    //
+    , }packet packetx
+    {
+// packet A { u8 x, }
+/// triple
+@rightPad (
+    ) f64 int @lengthOf(// `tick` ""quote"" 'q'
+Pad ) , u32 BodyLength ,
+float64 trueish//x
+@lengthOf( lengthOf ) `tab	here` , }
+")).
+Eval vm_compute in ("<<<M3506>>>" ++ check (runes_of_ascii "// top
+options
+    // c0
+
+	{ 
+        // c1
+  msg_type
+	    // c2
+	=
+
+    // c3
+    255 
+
+    // c4
+o 
+
+    // c5
+
+=
+	// c6
+'\x00'
+    // c7
+
+  ; 
+  // c8
+    x_y_z
+    // c9
+	= 
+    // c10
+
+	""abc""
+        // c11
+	; 
+
+// c12
+    int 
+        // c13
+	=  
+      // c14
+  00 
+
+    // c15
+  ;
+        // c16
+	body
+    // c17
+
+= 
+	// c18
+
+""\" ++ [233]%N ++ runes_of_ascii """
+
+// c19
+
+	;
+
+// c20
+} 
+	    // c21
+    	MetaData 
+// c22
+    BodyLength 
+// c23
+	{
+
+// c24
+      repeatCount 
+	// c25
+metadata
+
+// c26
+`a\`
+// c27
+, 
+    // c28
+	f64 
+// c29
+	float
+
+    // c30
+		`tab	here`
+        // c31
+	  ,
+    // c32
+  	zchar[
+
+// c33
+    	4294967296
+    // c34
+
+	]
+    // c35
+  metadata 
+	    // c36
+`" ++ [233]%N ++ runes_of_ascii "` 
+
+    // c37
+
+, 
+	// c38
+	  zchar[
+    // c39
+    	255
+	// c40
+] 
+      // c41
+float
+// c42
+	, 
+	// c43
+
+  } 
+    // c44
+")).
+Eval vm_compute in ("<<<M3712>>>" ++ check (runes_of_ascii "options {
+}
+
+root packet x_y_z {
+    string u128,
+    i8 zchar,
+    repeatCount roots `crlf
+    line`,
+}
+
+options {
+    float = char[0]// c
+}
+
+packet packetx {
+    @rightPad('0')
+    Packet {
+        roots x,
+    },
+    zchar[0] trueish @lengthOf(zchar),
+    @lengthOf(float)
+    @leftPad('0')
+    //x
+    @lengthOf(calculatedFrom)
+    char[4294967296] x `" ++ [28040; 24687; 31867; 22411]%N ++ runes_of_ascii "`,
+    Z9_ @calculatedFrom(""\n""),
+}
+
+packet MetaDataX {
+    @rightPad('0')
+    @tag(42)
+    a1 ``,
+    @calculatedFrom(""" ++ [233]%N ++ runes_of_ascii "t" ++ [233]%N ++ runes_of_ascii """)
+    @tag(007)
+    @leftPad()
+    char[1] roots @lengthOf(repeatCount),
+    char[] string_ @lengthOf(repeatCount),
+    @tag(3)
+    char[] x_y_z `u8 x,`,
+    f64 o @lengthOf(o),
+    @calculatedFrom(""" ++ [28040; 24687]%N ++ runes_of_ascii """)
+    zchar[007] options1 @lengthOf(msg_type),
+    @rightPad('0')
+    lengthOf,
+    int8 a1,
+}")).
+Eval vm_compute in ("<<<M122>>>" ++ check (runes_of_ascii "root packet
+A
+// packet A { u8 x, }
+// `tick` ""quote"" 'q'
+{
+    int64
+    //	t
+    Header@calculatedFrom(
+""packet"" ) , f32 o `it's` ,
+@calculatedFrom(// @lengthOf(
+"""" )zchar[
+0123456789 ] A @calculatedFrom(
+    ""\" ++ [233]%N ++ runes_of_ascii """ )
+    ,@calculatedFrom( ""abc""
+// a // b
+//	t
+) repeat
+    // `tick` ""quote"" 'q'
+    char[] a1,
+    repeat int trueish ,@rightPad
+(
+'\x00'
+) zchar[4294967296] _x , } root packet Z9_ {
+    } packet calculatedFrom { @lengthOf( int )repeat chars // trailing space 
+body, options1// " ++ [27880; 37322]%N ++ runes_of_ascii "
+@lengthOf(int) ,@lengthOf(a1 ) repeat char[
+    //x
+    1 ]  Pad `" ++ [28040; 24687; 31867; 22411]%N ++ runes_of_ascii "` , @calculatedFrom( """" )rootA u
+// " ++ [27880; 37322]%N ++ runes_of_ascii "
+//
+`doc`,
+int8 matchKey @calculatedFrom( ""CRC32""	) , @lengthOf( packetx ) @lengthOf(  msg_type ) u16 Foo	,	packetx crc `u8 x,`, zchar[ 255  ] A	,}")).
+Eval vm_compute in ("<<<M3613>>>" ++ check (runes_of_ascii "
+
+  MetaData Foo  /// triple
+{
+uint32
+
+calculatedFrom
+`tab	here` 
+,  //x
+options1 
+    //
+	//x
+
+  i64_,	// 50% %s
+  string	packetx `it's` 	 // " ++ [128512]%N ++ runes_of_ascii " emoji
+	,u32
+
+Packet
+
+    `
+`	,zchar[1 ]int `" ++ [233]%N ++ runes_of_ascii "` ,
+
+}
+	    // `tick` ""quote"" 'q'
+	packet
+x_y_z	{
+
+    T,
+	match
+
+    BodyLength 	 // @lengthOf(
+    as 
+//
+charz 
+{
+
+[
+	""// no comment"",
+""" ++ [233]%N ++ runes_of_ascii "t" ++ [233]%N ++ runes_of_ascii """
+,""`tick`""	,  0123456789] 
+: 
+Z9_ 
+""1""
+:MetaDataX[ ""\n""]	:
+
+matchKey
+, }
+
+    ,
+	stringy{
+repeat  uint16 
+float
+	,
+zchar[ 
+1
+	] Packet, } , //
+match
+
+    metadata as
+
+o // " ++ [27880; 37322]%N ++ runes_of_ascii "
+{ 
+10
+	: Header ,
+7:
+crc ""it's"" // 50% %s
+      :
+    falsey
+
+    3 :
+    leftPad 
+, [	00 , 1  // trailing space 
+	, 
+255 ,007 	 // " ++ [27880; 37322]%N ++ runes_of_ascii "
+,255 ]
+	:charz
+    4294967296
+    : 
+metadata
+
+}
+    , }
+")).
+Eval vm_compute in ("<<<M624>>>" ++ check (runes_of_ascii "options{ roots
+=
+    65535;
+    }options { repeatCount =""" ++ [28040; 24687]%N ++ runes_of_ascii """ i64_
+// " ++ [128512]%N ++ runes_of_ascii " emoji
+// `tick` ""quote"" 'q'
+=
+    zchar[ 0123456789 ] i64_=""""pack
+// packet A { u8 x, }
+// " ++ [27880; 37322]%N ++ runes_of_ascii "
+= true
+    } packet rootA{
+    // " ++ [128512]%N ++ runes_of_ascii " emoji
+    msg_type { int32 trueish@lengthOf( asx ) `crlf
+line` ,a1 @lengthOf(
+    leftPad // a // b
+)  ,	}// `tick` ""quote"" 'q'
+, i64	repeatCount ,
+u32	float
+@lengthOf( float
+    )
+, pack  { leftPad	, } ,packetx As ,
+}
+// packet A { u8 x, }
+// 50% %s
+packet pack{
+match
+A as msg_type { 007  : Logon , // " ++ [27880; 37322]%N ++ runes_of_ascii "
+[""CRC32"",007 , 10,
+    // @lengthOf(
+    7
+    , ""CRC32""] : lengthOf
+[
+""packet""] : string_ ,""x y"": Z9_
+    , }
+/// triple
+// @lengthOf(
+,
+tag ,chars @lengthOf( float ) , }")).
+Eval vm_compute in ("<<<M3327>>>" ++ check (runes_of_ascii "// top
+packet
+    // c0
+A
+    // c1
+{
+    // c2
+match
+    // c3
+packetx
+    // c4
+as
+    // c5
+BodyLength
+    // c6
+{
+    // c7
+007
+    // c8
+:
+    // c9
+A
+    // c10
+""" ++ [28040; 24687]%N ++ runes_of_ascii """
+    // c11
+:
+    // c12
+x_y_z
+    // c13
+,
+    // c14
+""" ++ [128512]%N ++ runes_of_ascii """
+    // c15
+:
+    // c16
+crc
+    // c17
+[
+    // c18
+""{,}""
+    // c19
+,
+    // c20
+""\n""
+    // c21
+,
+    // c22
+""" ++ [233]%N ++ runes_of_ascii "t" ++ [233]%N ++ runes_of_ascii """
+    // c23
+,
+    // c24
+""x y""
+    // c25
+,
+    // c26
+""a\""b""
+    // c27
+]
+    // c28
+:
+    // c29
+stringy
+    // c30
+,
+    // c31
+}
+    // c32
+,
+    // c33
+}
+    // c34
+root
+    // c35
+packet
+    // c36
+i64_
+    // c37
+{
+    // c38
+repeat
+    // c39
+pack
+    // c40
+`100% of %d`
+    // c41
+,
+    // c42
+}
+    // c43
+")).
+Eval vm_compute in ("<<<M466>>>" ++ check (runes_of_ascii "root packet  calculatedFrom {@calculatedFrom( """ ++ [128512]%N ++ runes_of_ascii """ ) match metadata as  chars	{ ""a	b"" :
+roots
+    , ""\n"": BodyLength
+, 00: lengthOf , }, } root packet // `tick` ""quote"" 'q'
+crc {	@rightPad(  )
+    string//x
+stringy
+@calculatedFrom( """")`doc`
+// @lengthOf(
+// c
+, @calculatedFrom( ""it's""
+    ) @leftPad
+(
+'0'
+    ) uint16 len @calculatedFrom( ""// no comment"" )
+,// " ++ [128512]%N ++ runes_of_ascii " emoji
+string x
+,}	packet options1{  uint8 matchKey  @lengthOf( u	)
+    ,
+repeat u8x  { float32
+tag `say ""hi""` , options1 Pad ,falsey // trailing space 
+{ repeat i8 body  `tab	here`, } ,} ,	@calculatedFrom(
+    """ ++ [128512]%N ++ runes_of_ascii """ ) string_
+// @lengthOf(
+//
+@lengthOf( falsey )// " ++ [27880; 37322]%N ++ runes_of_ascii "
+`doc` ,  }")).
+Eval vm_compute in ("<<<M770>>>" ++ check (runes_of_ascii "//x
+root packet  uint8x {	@lengthOf( int
+)@lengthOf( metadata )@lengthOf(  pack ) asx @lengthOf( trueish)
+// 50% %s
+//x
+,}packet int{ match Logon as chars {""packet"": Packet ,
+    ""{,}"" :  x, } ,msg_type `two words` , uint8 i8i8 `u8 x,` , @tag( 007
+    ) @calculatedFrom(
+""" ++ [128512]%N ++ runes_of_ascii """
+    // `tick` ""quote"" 'q'
+    )
+@tag(
+    3 // " ++ [27880; 37322]%N ++ runes_of_ascii "
+) zchar[//	t
+255 ] charz @lengthOf( falsey ),  u8
+    crc
+    @calculatedFrom(
+    ""it's"")
+    `say ""hi""` ,Logon i8i8
+    ,
+    u64 f32a , tag A`` ,i64_@calculatedFrom(
+""" ++ [233]%N ++ runes_of_ascii "t" ++ [233]%N ++ runes_of_ascii """
+) // @lengthOf(
+`u8 x,`, @tag( 007 ) repeat
+    metadata , } packet i64_
+    {} options { BodyLength =
+    255  }")).
+Eval vm_compute in ("<<<M20>>>" ++ check (runes_of_ascii "packet // " ++ [27880; 37322]%N ++ runes_of_ascii "
+MetaDataX /// triple
+{char[ 1 ]T  ,
+char[] Foo @calculatedFrom(
+""{,}"" )
+, a1
+    // " ++ [27880; 37322]%N ++ runes_of_ascii "
+    ,@lengthOf( roots) falsey int `u8 x,` , char[
+    0123456789 ] a1 `
+`,  string
+Z9_ @calculatedFrom( ""`tick`"" ) , zchar[
+00 ] Logon
+    @lengthOf(u128 // " ++ [128512]%N ++ runes_of_ascii " emoji
+)  `tab	here`
+    ,@calculatedFrom( ""a	b""
+) Z9_ { repeat stringy
+    { int16  string_ ,
+    string //x
+tag @lengthOf(// `tick` ""quote"" 'q'
+a1)// 50% %s
+, } ,
+    }
+, repeat charz
+    {lengthOf f32a , } ,char[ 65535] crc`" ++ [28040; 24687; 31867; 22411]%N ++ runes_of_ascii "` ,} packet len
+{
+    rootA // c
+{ repeat string string_ ,
+string pack
+,
+char[]
+roots,
+}
+, } //")).
+Eval vm_compute in ("<<<M409>>>" ++ check (runes_of_ascii "// c
+root
+// c
+//x
+packet As { trueish
+    @lengthOf( A )  , @tag(42)repeat  u16
+trueish
+,
+@rightPad  (  ' '
+) i8 stringy@calculatedFrom( """ ++ [128512]%N ++ runes_of_ascii """
+    )	`crlf
+line`
+    // 50% %s
+    , calculatedFrom`tab	here`
+,
+    // " ++ [128512]%N ++ runes_of_ascii " emoji
+    i32 Logon @calculatedFrom(
+    ""CRC32""
+    ) // a // b
+, roots { matchKey @lengthOf( len  )
+    ,
+    matchKey@calculatedFrom( ""\" ++ [233]%N ++ runes_of_ascii """ ), u8x
+    @calculatedFrom(""1"" )
+    , falsey
+    // 50% %s
+    {
+    // a // b
+    repeat stringy u`" ++ [233]%N ++ runes_of_ascii "`	, repeat char[ 65535
+    ] a1
+,
+}
+// " ++ [128512]%N ++ runes_of_ascii " emoji
+//
+, }
+, @tag( /// triple
+3 )  int8 T
+    `say ""hi""`
+    , }
+")).
+Eval vm_compute in ("<<<M1212>>>" ++ check (runes_of_ascii "root
+    packet
+o { uint8 charz `" ++ [233]%N ++ runes_of_ascii "`
+,	char[ 65535
+] Header @calculatedFrom( ""a\\"" ) ,repeat
+uint32
+pack,
+    chars{u32 metadata @calculatedFrom(
+// @lengthOf(
+// c
+""x y""
+    // packet A { u8 x, }
+    ) `" ++ [233]%N ++ runes_of_ascii "` //	t
+,	x_y_z
+,string_ @calculatedFrom(
+    ""a	b"" ) ,
+    //	t
+    float	@lengthOf(	leftPad ), } ,}MetaData body
+    { string Pad `
+` ,	}
+root packet o
+    {@calculatedFrom( ""{,}""
+    ) @calculatedFrom(
+    // 50% %s
+    ""1"")
+_x
+    //
+    { zchar[
+    1]crc ,char[]//x
+u128
+    @lengthOf( matchKey)
+,o @lengthOf(matchKey  )`{ , }` ,
+}, }
+
+")).
+Eval vm_compute in ("<<<M3782>>>" ++ check (runes_of_ascii "root
+packet
+
+    len 
+{
+}
+MetaData 
+zchar{
+} 
+root
+packet
+len	{match
+
+lengthOf as  x {  ""it's"" :  i64_,
+[
+
+    ""a	b"" , 0123456789,  ""\" ++ [233]%N ++ runes_of_ascii """ ,
+
+    00 , """ ++ [28040; 24687]%N ++ runes_of_ascii """ ]
+	:// `tick` ""quote"" 'q'
+    	float 
+[ 
+    // @lengthOf(
+  // packet A { u8 x, }
+	""CRC32""  ,
+
+""{,}"" 	 // a // b
+    ]
+	:  f32a,  [""it's"" 
+,""" ++ [128512]%N ++ runes_of_ascii """
+, ""a	b""
+
+,""it's""
+	,""" ++ [128512]%N ++ runes_of_ascii """ ,  3  ]  : u128
+
+, """ ++ [128512]%N ++ runes_of_ascii """	: chars 
+,
+
+[  // @lengthOf(
+		7
+,	"""" ]	:
+charz	,
+}	, char[  00
+
+    ]BodyLength
+
+    ,
+	@tag(4294967296  )
+
+    string_,
+@lengthOf(Foo  )BodyLength int ,}
+")).
+Eval vm_compute in ("<<<M3409>>>" ++ check (runes_of_ascii "// top
+packet // c0a
+  // c0b
+A // c1
+{ // c2a
+  // c2b
+u8
+    // c3
+a // c4a
+  // c4b
+, // c5a
+  // c5b
+}
+    // c6
+packet // c7a
+  // c7b
+B // c8
+{
+    // c9
+u16
+    // c10
+b // c11
+, // c12
+} // c13a
+  // c13b
+root
+    // c14
+packet
+    // c15
+P // c16a
+  // c16b
+{ // c17
+u8 // c18
+K
+    // c19
+, // c20a
+  // c20b
+match // c21
+K
+    // c22
+as
+    // c23
+M { // c25a
+  // c25b
+1 // c26a
+  // c26b
+: A
+    // c28
+, 1 // c30a
+  // c30b
+: // c31a
+  // c31b
+B // c32a
+  // c32b
+,
+    // c33
+} , } ")).
+Eval vm_compute in ("<<<M3732>>>" ++ check (runes_of_ascii "packet A {
+    @tag(00)
+    f32a @lengthOf(Pad),// a // b
+    @rightPad(' ')
+    uint16 o,
+    repeat Pad {
+        trueish @calculatedFrom(""// no comment""),
+        asx calculatedFrom ``,//	t
+        zchar @lengthOf(int),
+        repeat packetx {
+            MetaDataX,
+        },
+    },
+    repeat Packet matchKey,//
+}
+
+MetaData matchKey {
+    u8 charz `" ++ [28040; 24687; 31867; 22411]%N ++ runes_of_ascii "`,
+    i8i8 T,
+    zchar[0] trueish,
+    char[4294967296] float `a\`,
+    options1 Pad `" ++ [28040; 24687; 31867; 22411]%N ++ runes_of_ascii "`,
+    char[] stringy,
+}")).
+Eval vm_compute in ("<<<M1218>>>" ++ check (runes_of_ascii "
+packet
+    falsey { }
+packet x { } packet repeatCount { @tag(
+    // 50% %s
+    007 ) @lengthOf( body
+) @lengthOf( Z9_  ) repeat T  {repeat
+    int {	char[] lengthOf @calculatedFrom( ""// no comment"" )
+    ,
+} ,
+i8 tag , repeat char packetx // packet A { u8 x, }
+`// not a comment`
+,
+} ,lengthOf @lengthOf(  T ), @calculatedFrom(
+""{,}"" )
+@calculatedFrom( ""`tick`"" )@tag(
+    65535 ) zchar[ 0123456789 ] Z9_
+@lengthOf(
+stringy )`tab	here`
+    , }
+//x
+")).
+Eval vm_compute in ("<<<M1103>>>" ++ check (runes_of_ascii "MetaData tag { MetaDataX i8i8
+    ,
+}	MetaData o { a1
+    charz `two words`, }// packet A { u8 x, }
+root// " ++ [27880; 37322]%N ++ runes_of_ascii "
+packet	zchar {	@calculatedFrom( ""// no comment"" ) @lengthOf(
+string_)
+@calculatedFrom(
+""a\""b"" )match Header
+as options1 { 0123456789 : roots 00 :/// triple
+asx//x
+[65535 , /// triple
+""\n""
+]:u128
+, """ ++ [233]%N ++ runes_of_ascii "t" ++ [233]%N ++ runes_of_ascii """ : zchar 255
+:
+Header
+    , 65535: packetx ,  }	,// " ++ [128512]%N ++ runes_of_ascii " emoji
+@calculatedFrom( ""1"" ) repeat u32 repeatCount ,
+    }
+")).
+Eval vm_compute in ("<<<M160>>>" ++ check (runes_of_ascii "root packet
+a1 {
+@calculatedFrom( """") int8 u128 , match
+    i64_  as leftPad {
+007 : tag ,[ 0123456789 ] : // 50% %s
+string_	,
+""" ++ [233]%N ++ runes_of_ascii "t" ++ [233]%N ++ runes_of_ascii """  :trueish , [ 255 ,  ""a	b"" ] :
+trueish , }
+, zchar[ 255
+    ]o ,
+    @tag( 65535
+    ) @rightPad (' ' ) @tag( 7 )i8 pack
+    @calculatedFrom( ""\n"" )
+    //	t
+    , repeat char[]
+    charz `say ""hi""`  ,	}	options{ Header = int16 } options{ rootA= """ ++ [128512]%N ++ runes_of_ascii """ body= ""// no comment"" ;
+}
+
+")).
+Eval vm_compute in ("<<<M3447>>>" ++ check (runes_of_ascii "packet NewOrder {
+    u32 qty,
+}
+packet Cancel {
+    u64 id,
+}
+packet Business {
+    u8 Kind,
+    match Kind as Detail {
+        1 : NewOrder,
+        2 : Cancel,
+    },
+}
+packet TcpFrame {
+    u8 T,
+    match T as Body {
+        1 : Business,
+    },
+}
+packet UdpFrame {
+    u8 U,
+    match U as Body {
+        1 : Business,
+    },
+    Business extra,
+}
+root packet Wire {
+    TcpFrame,
+    UdpFrame,
+}
+")).
+Eval vm_compute in ("<<<M820>>>" ++ check (runes_of_ascii "packet uint8x { @tag(0123456789 ) match u8x
+as //x
+tag
+    {
+[ ""a\\"" , ""{,}"", // " ++ [128512]%N ++ runes_of_ascii " emoji
+0123456789 // " ++ [128512]%N ++ runes_of_ascii " emoji
+,""it's"" ] : tag } , char[ 3 ] packetx	,
+repeat u8 x_y_z
+    , i64
+    repeatCount `{ , }`, msg_type
+    ,@lengthOf( body ) repeat i8i8 _x `{ , }` , /// triple
+@lengthOf( Pad )
+repeat T	{ match msg_type // trailing space 
+as tag{ /// triple
+""`tick`"":len }
+,
+    }
+,
+    }")).
+Eval vm_compute in ("<<<M965>>>" ++ check (runes_of_ascii "root packet  zchar {
+    char[ 1 ] int
+`a\` ,	} packet Foo { matchKey @calculatedFrom( """ ++ [233]%N ++ runes_of_ascii "t" ++ [233]%N ++ runes_of_ascii """	) `
+`  ,
+int32
+body`" ++ [233]%N ++ runes_of_ascii "`, @tag(7
+//x
+//
+) match
+repeatCount as T {
+[
+    ""\n"" ,
+    // @lengthOf(
+    ""1""  ]:
+tag , [//	t
+""`tick`""
+, ""\n"" // c
+]
+    // `tick` ""quote"" 'q'
+    :repeatCount 00	:	Pad ,255 : body}
+    , @lengthOf(x ) float64 chars	@lengthOf( uint8x ) , }
+")).
+Eval vm_compute in ("<<<M709>>>" ++ check (runes_of_ascii "packet f32a {// trailing space 
+} packet // trailing space 
+As
+{ string // @lengthOf(
+roots @calculatedFrom( // 50% %s
+""a\""b""
+    )
+    , repeat leftPad
+    { int32	As ,// " ++ [27880; 37322]%N ++ runes_of_ascii "
+} ,  Logon
+int
+`crlf
+line` , @leftPad ( '\x00' ) @tag(
+    65535 )
+@calculatedFrom( ""a	b"" )
+    u32 f32a @calculatedFrom(
+""packet""
+) `u8 x,` // a // b
+,
+    } /// triple")).
+Eval vm_compute in ("<<<M98>>>" ++ check (runes_of_ascii "packet calculatedFrom
+{
+    @tag( 00)
+    @calculatedFrom(
+""`tick`"" ) trueish@calculatedFrom(""x y"" )	,
+i8 // 50% %s
+u8x , @lengthOf( body ) uint8x
+x ,  msg_type { // packet A { u8 x, }
+char[] Pad`two words` ,
+} , } //	t
+options { charz =
+    7 ; u8x = zchar[ 255 ]
+;//	t
+u128
+    =""`tick`"" calculatedFrom = false
+;} options {}
+")).
+Eval vm_compute in ("<<<M830>>>" ++ check (runes_of_ascii "packet len // 50% %s
+{
+    @calculatedFrom(""it's"" )
+calculatedFrom/// triple
+msg_type,
+}options {zchar = 3; T
+    = """ ++ [28040; 24687]%N ++ runes_of_ascii """ ;  x = char[ // 50% %s
+3] Foo=false ;
+} options {zchar= ""`tick`"" ;T =
+    true
+Packet
+=
+    ' ' }options { A= ""\n""
+    ;  roots = ""1""
+    ;lengthOf= 0 ;	metadata
+    // " ++ [128512]%N ++ runes_of_ascii " emoji
+    =0123456789 }
+
+")).
+Eval vm_compute in ("<<<M3938>>>" ++ check (runes_of_ascii "options {
+    charz = ""x y"";
+}
+
+MetaData Pad {
+}
+
+packet As {
+}
+
+packet body {
+    match matchKey as f32a {
+        ""a\\"" : tag,
+        007 : tag,
+        3 : Packet,
+        [""{,}"", ""a\\"", ""{,}""] : MetaDataX,
+        // c
+        // " ++ [128512]%N ++ runes_of_ascii " emoji
+    },
+    repeat zchar[1] x_y_z `doc`,
+}
+
+packet BodyLength {
+}")).
+Eval vm_compute in ("<<<M867>>>" ++ check (runes_of_ascii "packet Pad { @lengthOf( f32a )repeat u64
+    // c
+    lengthOf`it's`,
+    @calculatedFrom( //x
+""CRC32"" ) falsey {repeat  uint16 pack
+    , } , } root
+    packet
+falsey { int8 //
+falsey ,
+    } root packet
+trueish
+    {}
+//x
+// trailing space 
+root
+    packet /// triple
+calculatedFrom//
+{}")).
+Eval vm_compute in ("<<<M1667>>>" ++ check (runes_of_ascii "// 50% %s
+packet	a1
+    { zchar[
+// a // b
+// 50% %s
+007]
+T `it's`
+    ,@rightPad
+    // a // b
+    (
+'\x00')
+    o repeatCount , }  packet Logon {  }packet	Logon //x
+{ repeat // " ++ [128512]%N ++ runes_of_ascii " emoji
+uint16 u128
+    //
+    `a\`,
+falsey
+@calculatedFrom( @calculatedFrom(""packet"" ) ,
+    } 	 ")).
+Eval vm_compute in ("<<<M3810>>>" ++ check (runes_of_ascii "MetaData 
+pack
+{	zchar[10 ] string_ `" ++ [28040; 24687; 31867; 22411]%N ++ runes_of_ascii "`  ,msg_type chars ,	char[]
+
+    o // trailing space 
+
+	`a\`//x
+, 
+zchar[65535 ]T,As
+T,  packetx  tag
+,
+    }root
+
+packet o
+        // c
+    	// `tick` ""quote"" 'q'
+    	{}
+MetaData chars
+// trailing space 
+  // 50% %s
+{//x
+}
+")).
+Eval vm_compute in ("<<<M1534>>>" ++ check (runes_of_ascii "// 50% %s
+packet	a1
+    { @lengthOf(
+// a // b
+// 50% %s
+007]
+T `it's`
+    ,@rightPad
+    // a // b
+    (
+'\x00')
+    o repeatCount , }  packet Logon {  }packet	Logon //x
+{ repeat // " ++ [128512]%N ++ runes_of_ascii " emoji
+uint16 u128
+    //
+    `a\`,
+falsey
+@calculatedFrom(""packet"" ) ,
+    } 	 ")).
+Eval vm_compute in ("<<<M1677>>>" ++ check (runes_of_ascii "// 50% %s
+packet	a1
+    { zchar[
+// a // b
+// 50% %s
+007]
+T `it's`
+    ,@rightPad
+    // a // b
+    (
+'\x00')
+    o repeatCount , }  packet Logon {  }packet	Logon //x
+{ repeat // " ++ [128512]%N ++ runes_of_ascii " emoji
+uint16 u128
+    //
+    `a\`,
+falsey
+@calculatedFrom(""packet"" ) ) ,
+    } 	 ")).
+Eval vm_compute in ("<<<M1563>>>" ++ check (runes_of_ascii "// 50% %s
+packet	a1
+    { zchar[
+// a // b
+// 50% %s
+007]
+T `it's`
+    ,(
+    // a // b
+    @rightPad
+'\x00')
+    o repeatCount , }  packet Logon {  }packet	Logon //x
+{ repeat // " ++ [128512]%N ++ runes_of_ascii " emoji
+uint16 u128
+    //
+    `a\`,
+falsey
+@calculatedFrom(""packet"" ) ,
+    } 	 ")).
+Eval vm_compute in ("<<<M1541>>>" ++ check (runes_of_ascii "// 50% %s
+packet	a1
+    { zchar[
+// a // b
+// 50% %s
+007
+T `it's`
+    ,@rightPad
+    // a // b
+    (
+'\x00')
+    o repeatCount , }  packet Logon {  }packet	Logon //x
+{ repeat // " ++ [128512]%N ++ runes_of_ascii " emoji
+uint16 u128
+    //
+    `a\`,
+falsey
+@calculatedFrom(""packet"" ) ,
+    } 	 ")).
+Eval vm_compute in ("<<<M1609>>>" ++ check (runes_of_ascii "// 50% %s
+packet	a1
+    { zchar[
+// a // b
+// 50% %s
+007]
+T `it's`
+    ,@rightPad
+    // a // b
+    (
+'\x00')
+    o repeatCount , }  packet } {  }packet	Logon //x
+{ repeat // " ++ [128512]%N ++ runes_of_ascii " emoji
+uint16 u128
+    //
+    `a\`,
+falsey
+@calculatedFrom(""packet"" ) ,
+    } 	 ")).
+Eval vm_compute in ("<<<M644>>>" ++ check (runes_of_ascii "  options // " ++ [128512]%N ++ runes_of_ascii " emoji
+{ //
+}
+MetaData
+pack {char[] u128 ,}
+root packet// 50% %s
+stringy
+    { // `tick` ""quote"" 'q'
+@leftPad // 50% %s
+( ' ' // a // b
+) @lengthOf( metadata ) repeat packetx `line1
+line2`
+, Header@lengthOf(
+    a1 //x
+)`line1
+line2` , }
+")).
+Eval vm_compute in ("<<<M360>>>" ++ check (runes_of_ascii "root packet Z9_{string_ { repeat
+float { repeat // c
+int8// a // b
+u8x `// not a comment` ,	char[]options1@lengthOf( x_y_z )`two words` ,repeat char[ 3 ] i8i8
+`" ++ [233]%N ++ runes_of_ascii "`
+,match
+repeatCount
+as	body
+    {  ""x y"":
+    asx ,	}
+    ,}, }, } // @lengthOf(")).
+Eval vm_compute in ("<<<M3415>>>" ++ check (runes_of_ascii "packet order_item
+    // c1
+{ // c2a
+  // c2b
+u8 // c3
+a ,
+    // c5
+} // c6a
+  // c6b
+root
+    // c7
+packet // c8
+new_order // c9a
+  // c9b
+{
+    // c10
+order_item // c11a
+  // c11b
+, // c12
+u8 // c13
+x
+    // c14
+,
+    // c15
+} // c16
+")).
+Eval vm_compute in ("<<<M3488>>>" ++ check (runes_of_ascii "packet Sub {
+    u8 a,
+    u16 SubSum @calculatedFrom(""CRC16""),
+}
+root packet Frame {
+    u16 MsgType,
+    u16 BodyLen @lengthOf(Body),
+    Sub Body,
+    string note,
+    u16 Checksum @calculatedFrom(""CRC16""),
+    u8 tail,
+}
+")).
+Eval vm_compute in ("<<<M594>>>" ++ check (runes_of_ascii "
+packet i8i8	{ } packet metadata {	zchar o , }//
+packet  Pad { @lengthOf(calculatedFrom )packetx, float64 Header
+    ,	char
+    /// triple
+    x// a // b
+`u8 x,`	,
+@tag( 42 ) zchar[ 1/// triple
+]
+int
+    `doc`
+,
+}
+")).
+Eval vm_compute in ("<<<M4458>>>" ++ check (runes_of_ascii "
+packet MetaDataX
+    {}	MetaData
+	crc
+{
+    tag
+    MetaDataX
+, 
+	// `tick` ""quote"" 'q'
+      char[ 65535 ]
+
+trueish	,
+    string	crc
+,	// a // b
+    zchar[
+7 ] MetaDataX 
+,
+	    /// triple
+	// " ++ [27880; 37322]%N ++ runes_of_ascii "
+	}
+")).
+Eval vm_compute in ("<<<M65>>>" ++ check (runes_of_ascii "packet
+// @lengthOf(
+// c
+calculatedFrom {match	_x as MetaDataX
+{ ""// no comment""  : T
+, }	, } packet options1 {
+} packet Logon
+    {
+    f32 falsey @calculatedFrom(
+""" ++ [128512]%N ++ runes_of_ascii """ ), }
+// packet A { u8 x, }
+")).
+Eval vm_compute in ("<<<M1020>>>" ++ check (runes_of_ascii "packet u8x {
+options1{ u32 roots@lengthOf(
+    zchar ) , char[ 4294967296] Packet  @lengthOf( A) `{ , }` ,	float@lengthOf( options1 )// 50% %s
+, u @lengthOf( x) `crlf
+line`,// " ++ [27880; 37322]%N ++ runes_of_ascii "
+} ,
+}
+")).
+Eval vm_compute in ("<<<M601>>>" ++ check (runes_of_ascii "root
+packet
+    i8i8	{ } packet u8x {uint8x  o ,
+    string_ { tag
+    float `crlf
+line`
+    , } ,
+    repeat // " ++ [128512]%N ++ runes_of_ascii " emoji
+char[ 7]
+stringy `two words` // trailing space 
+, }
+")).
+Eval vm_compute in ("<<<M912>>>" ++ check (runes_of_ascii "packet Pad{ zchar[
+    00	]	crc ,@rightPad ( '\x00' ) uint16 crc `" ++ [233]%N ++ runes_of_ascii "`,} options { _x = string ; }// 50% %s
+options
+// " ++ [27880; 37322]%N ++ runes_of_ascii "
+/// triple
+{ Foo=  10 }options
+{ Foo = '\x00'	; }
+")).
+Eval vm_compute in ("<<<M67>>>" ++ check (runes_of_ascii "MetaData charz { } options { crc  =  ""a	b"" ; } packet	falsey
+    { // trailing space 
+} packet falsey //	t
+{@lengthOf( uint8x
+) uint32 asx, }
+root packet
+crc {
+}
+")).
+Eval vm_compute in ("<<<M4010>>>" ++ check (runes_of_ascii "packet A {
     Inner {
         u8 x `a
-        b`,
+            b
+          c`,
         Deep {
             u8 y `a
-            b`,
+                b
+              c`,
         },
     },
 }")).
-Eval vm_compute in ("<<<M1244>>>" ++ check (runes_of_ascii "root packet matchKey { zchar[ 3 ] pack @calculatedFrom( ""a	b"" )
-// c
-`doc` , } options { } MetaData A { int8 msg_type , }")).
-Eval vm_compute in ("<<<M1845>>>" ++ check (runes_of_ascii "
-
-  packet
-
-A {  match k as
-    n {  [ ""a""
-    ,	""bb""
-, 007
-    ,
-""d"",	""e""	,
-66 ,
-""g""]:
-
-    B,
-    2	:
-C
-}  ,
+Eval vm_compute in ("<<<M4107>>>" ++ check (runes_of_ascii "packet leftPad {
 }
 
-")).
-Eval vm_compute in ("<<<M1745>>>" ++ check (runes_of_ascii "
-packet  chars {
-    }packet 
-MetaDataX{  @tag(
-// c
-  42
-    )
-	i16 string_,
-repeat x
-	`say ""hi""` ,
+MetaData trueish {
+    i64_ roots,
+}
 
-    } ")).
-Eval vm_compute in ("<<<M2>>>" ++ check (runes_of_ascii "packet i8i8
+root packet i8i8 {
+    @leftPad('0')
+    _x _x ``,// packet A { u8 x, }
+}// packet A { u8 x, }")).
+Eval vm_compute in ("<<<M2156>>>" ++ check (runes_of_ascii "MetaData BodyLength
+{ int8 Foo
+, string
+    MetaDataX , float zchar ,pack options1
+,asx string_, }
+packet u8x {Foo Foo@lengthOf(charz )
+`" ++ [28040; 24687; 31867; 22411]%N ++ runes_of_ascii "`,  }
+")).
+Eval vm_compute in ("<<<M2204>>>" ++ check (runes_of_ascii "MetaData BodyLength
+{ int8 Foo
+, string
+    Me''taDataX , float zchar ,pack options1
+,asx string_, }
+packet u8x {Foo@lengthOf(charz )
+`" ++ [28040; 24687; 31867; 22411]%N ++ runes_of_ascii "`,  }
+")).
+Eval vm_compute in ("<<<M1932>>>" ++ check (runes_of_ascii "
+packet leftPad leftPad {
+@leftPad( '0')
+u32
+i64_ `100% of %d` ,repeat// 50% %s
+i8 chars
+    ,
+} MetaData
+    f32a
+{ // packet A { u8 x, }
+}")).
+Eval vm_compute in ("<<<M2231>>>" ++ check (runes_of_ascii "options
     {
-char[
-1
-] f32a@calculatedFrom(//	t
-""\n"" )
-    // packet A { u8 x, }
-    , repeat charz,}
+x_y_z// " ++ [27880; 37322]%N ++ runes_of_ascii "
+= @lengthOf( ; }
+packet body {
+    @calculatedFrom(
+// trailing space 
+// " ++ [27880; 37322]%N ++ runes_of_ascii "
+""1""
+)	match T as Foo
+    {
+255 :T , }
+,}")).
+Eval vm_compute in ("<<<M2098>>>" ++ check (runes_of_ascii "MetaData BodyLength
+{ int8 Foo
+, string
+    MetaDataX , float u32 ,pack options1
+,asx string_, }
+packet u8x {Foo@lengthOf(charz )
+`" ++ [28040; 24687; 31867; 22411]%N ++ runes_of_ascii "`,  }
 ")).
-Eval vm_compute in ("<<<M1656>>>" ++ check (runes_of_ascii "packet metadata {
-    Logon {
-        A `" ++ [28040; 24687; 31867; 22411]%N ++ runes_of_ascii "`,
-        tag o,
-    },
-    zchar len `// not a comment`,
-}")).
-Eval vm_compute in ("<<<M863>>>" ++ check (runes_of_ascii "packet A {
-  match k as n {
-    [""a"", ""bb"", ""c c"", ""d"", ""e"", ""f"", ""g"", ""h"", ""i""] : B
-    2 : C
-  },
-}")).
-Eval vm_compute in ("<<<M895>>>" ++ check (runes_of_ascii "packet A {
-  match k as n {
-    [1, 22, ""c c"", 4, 5, ""f"", 7, 8, ""i"", 10, 11] : B
-    2 : C
-  },
-}")).
-Eval vm_compute in ("<<<M858>>>" ++ check (runes_of_ascii "packet A {
-  match k as n {
-    [""a"", ""bb"", 007, ""d"", ""e"", 66, ""g"", ""h""] : B
-    2 : C
-  },
-}")).
-Eval vm_compute in ("<<<M2049>>>" ++ check (runes_of_ascii "packet A {
-    B b `a
-        b`,
-    B `a
-        b`,
-    repeat B bs `a
-        b`,
-}")).
-Eval vm_compute in ("<<<M1203>>>" ++ check (runes_of_ascii "MetaData float { float64 charz `
-` , } root packet chars {
-// c
-@rightPad ( '0' ) Foo , }")).
-Eval vm_compute in ("<<<M1414>>>" ++ check (runes_of_ascii "packet chars { } packet MetaDataX { @tag( 42 ) // c
-i16 string_ , repeat x `say ""hi""` , }")).
-Eval vm_compute in ("<<<M1123>>>" ++ check (runes_of_ascii "
-// c
-packet metadata { Logon { A `" ++ [28040; 24687; 31867; 22411]%N ++ runes_of_ascii "` , tag o , } , zchar len `// not a comment` , }")).
-Eval vm_compute in ("<<<M1144>>>" ++ check (runes_of_ascii "packet metadata { Logon { A `" ++ [28040; 24687; 31867; 22411]%N ++ runes_of_ascii "` , tag o , // c
-} , zchar len `// not a comment` , }")).
-Eval vm_compute in ("<<<M1349>>>" ++ check (runes_of_ascii "packet o { repeat Logon
-// c
-uint8x , } options { asx = zchar[ 3 ] stringy = '\x00' }")).
-Eval vm_compute in ("<<<M831>>>" ++ check (runes_of_ascii "packet A {
-  match k as n {
-    [""a"", ""bb"", 007, ""d"", ""e"", 66] : B,
-    2 : C
-  },
-}")).
-Eval vm_compute in ("<<<M1310>>>" ++ check (runes_of_ascii "MetaData body {
-// c
-i64 pack `it's` , } packet stringy { int16 calculatedFrom , }")).
-Eval vm_compute in ("<<<M1500>>>" ++ check (runes_of_ascii "packet orderItem {
-    u8 a,
-}
-root packet newOrder {
-    orderItem,
-    u8 x,
-}
+Eval vm_compute in ("<<<M767>>>" ++ check (runes_of_ascii "root
+packet asx {  packetx u128 `a\`
+//x
+// " ++ [128512]%N ++ runes_of_ascii " emoji
+,repeat
+    //	t
+    i32 x , }	options { pack  =
+    true As = """ ++ [128512]%N ++ runes_of_ascii """
+    ;  }
+// a // b
 ")).
-Eval vm_compute in ("<<<M1859>>>" ++ check (runes_of_ascii "
-packet
-    x
-	{ 
-@rightPad
-	(
-    )// c
-    repeat  roots  Logon
-`doc` , }
+Eval vm_compute in ("<<<M2090>>>" ++ check (runes_of_ascii "MetaData BodyLength
+{ int8 Foo
+, string
+    MetaDataX ,  zchar ,pack options1
+,asx string_, }
+packet u8x {Foo@lengthOf(charz )
+`" ++ [28040; 24687; 31867; 22411]%N ++ runes_of_ascii "`,  }
 ")).
+Eval vm_compute in ("<<<M2239>>>" ++ check (runes_of_ascii "options
+    {
+x_y_z// " ++ [27880; 37322]%N ++ runes_of_ascii "
+= 10 ; } }
+packet body {
+    @calculatedFrom(
+// trailing space 
+// " ++ [27880; 37322]%N ++ runes_of_ascii "
+""1""
+)	match T as Foo
+    {
+255 :T , }
+,}")).
+Eval vm_compute in ("<<<M2301>>>" ++ check (runes_of_ascii "options
+    {
+x_y_z// " ++ [27880; 37322]%N ++ runes_of_ascii "
+= 10 ; }
+packet body {
+    @calculatedFrom(
+// trailing space 
+// " ++ [27880; 37322]%N ++ runes_of_ascii "
+""1""
+)	match T as Foo
+    {
+`a\` :T , }
+,}")).
 Eval vm_compute in ("<<<M2003>>>" ++ check (runes_of_ascii "
-packet  x
-{
-// c
-  @rightPad
-( )repeat
-    roots
-Logon
-    `doc`
-	,}")).
-Eval vm_compute in ("<<<M1863>>>" ++ check (runes_of_ascii "packet crc {
-    u32 T @lengthOf(x) `crlf
-        line`,// a // b
-}")).
-Eval vm_compute in ("<<<M2021>>>" ++ check (runes_of_ascii "
-
-  root
-    packet
-P {
-    hdr	{	u8
-	a
+packet leftPad {
+@leftPad( '0')
+u32
+i64_ `100% of %d` ,repeat// 50% %s
+i8 chars
     ,
-	}  , u8
-
-x	, }
+MetaData }
+    f32a
+{ // packet A { u8 x, }
+}")).
+Eval vm_compute in ("<<<M2320>>>" ++ check (runes_of_ascii "options
+    {
+x_y_z// " ++ [27880; 37322]%N ++ runes_of_ascii "
+= 10 ; }
+packet body {
+    @calculatedFrom(
+// trailing space 
+// " ++ [27880; 37322]%N ++ runes_of_ascii "
+""1""
+)	match T as Foo
+    {
+255 :T , ,
+}}")).
+Eval vm_compute in ("<<<M2308>>>" ++ check (runes_of_ascii "options
+    {
+x_y_z// " ++ [27880; 37322]%N ++ runes_of_ascii "
+= 10 ; }
+packet body {
+    @calculatedFrom(
+// trailing space 
+// " ++ [27880; 37322]%N ++ runes_of_ascii "
+""1""
+)	match T as Foo
+    {
+255 : , }
+,}")).
+Eval vm_compute in ("<<<M132>>>" ++ check (runes_of_ascii "// packet A { u8 x, }
+packet u128 {} options	{Z9_// a // b
+=u32
+}options { }	MetaData
+a1
+{char[  42 ] roots `" ++ [28040; 24687; 31867; 22411]%N ++ runes_of_ascii "` , }
+// " ++ [128512]%N ++ runes_of_ascii " emoji
 ")).
-Eval vm_compute in ("<<<M190>>>" ++ check (runes_of_ascii "MetaData zchar
-    {  i32 Z9_ `say ""hi""` ,
-    } // a // b")).
-Eval vm_compute in ("<<<M768>>>" ++ check (runes_of_ascii "packet A {
+Eval vm_compute in ("<<<M1267>>>" ++ check (runes_of_ascii "packet
+    lengthOf { @rightPad ( ' ' ) @calculatedFrom( ""{,}"" )@lengthOf(T )repeat zchar[
+    0123456789 ] lengthOf`" ++ [28040; 24687; 31867; 22411]%N ++ runes_of_ascii "`
+, } 	 ")).
+Eval vm_compute in ("<<<M4186>>>" ++ check (runes_of_ascii "packet A {
+    Inner {
+        u8 x `tab
+        	x`,
+        Deep {
+            u8 y `tab
+            	x`,
+        },
+    },
+}")).
+Eval vm_compute in ("<<<M1237>>>" ++ check (runes_of_ascii "packet
+chars {
+// @lengthOf(
+//x
+} options{
+As=
+uint8
+As =
+    // a // b
+    ' 'i8i8 =// packet A { u8 x, }
+0123456789 }
+")).
+Eval vm_compute in ("<<<M3591>>>" ++ check (runes_of_ascii "packet msg_type {
+    @lengthOf(i64_)
+    @leftPad(' ')
+    // a // b
+    char[1] float @lengthOf(matchKey),
+}// " ++ [128512]%N ++ runes_of_ascii " emoji")).
+Eval vm_compute in ("<<<M900>>>" ++ check (runes_of_ascii "MetaData crc  {char[] packetx
+    , } MetaData f32a { string
+    o`
+` ,
+    }  packet  Packet {repeat
+i8i8 i64_
+,
+}")).
+Eval vm_compute in ("<<<M1914>>>" ++ check (runes_of_ascii "packet o {
+    'roots `it's`
+// trailing space 
+//x
+, char[ 42
+    ]  A, // " ++ [27880; 37322]%N ++ runes_of_ascii "
+f64
+repeatCount
+    `crlf
+line`
+,}")).
+Eval vm_compute in ("<<<M2410>>>" ++ check (runes_of_ascii "MetaData
+    
+{ zchar[  10 ]
+    As`tab	here`,
+    }// trailing space 
+options  { roots ='\x00' ; } packet A
+{ }
+")).
+Eval vm_compute in ("<<<M3074>>>" ++ check (runes_of_ascii "packet A {
+    u16 len @lengthOf(body) `%%d%!`,
+    u32 crc @calculatedFrom(""CRC32"") `%%d%!`,
+    string body,
+}")).
+Eval vm_compute in ("<<<M525>>>" ++ check (runes_of_ascii "options { string_
+=
+""" ++ [128512]%N ++ runes_of_ascii """
+; lengthOf
+=
+string T // c
+= uint16 ;int = zchar[
+    //x
+    3 ] ; A	= ""1"" ;
+    }")).
+Eval vm_compute in ("<<<M2976>>>" ++ check (runes_of_ascii "packet A {
   match k as n {
-    [1] : B,
+    [""a"", ""bb"", ""c c"", ""d"", ""e"", ""f"", ""g"", ""h"", ""i"", ""j""] : B
     2 : C
   },
 }")).
-Eval vm_compute in ("<<<M1080>>>" ++ check (runes_of_ascii "packet A { B { // a
- u8 x, // b
- } // c
- , // d
- }")).
-Eval vm_compute in ("<<<M2019>>>" ++ check (runes_of_ascii "root
-    packet
+Eval vm_compute in ("<<<M4342>>>" ++ check (runes_of_ascii "MetaData leftPad {
+    int8 falsey `line1
+        line2`,
+}/// triple
 
-    pack 
-    // c
-    {	}")).
-Eval vm_compute in ("<<<M652>>>" ++ check (runes_of_ascii "root packet tag { }  packet MetaDataX{ch")).
-Eval vm_compute in ("<<<M764>>>" ++ check ([65533]%N ++ runes_of_ascii "X" ++ [387; 31]%N ++ runes_of_ascii "+" ++ [65533; 65533; 404; 65533; 65533]%N ++ runes_of_ascii "9C" ++ [3; 65533]%N ++ runes_of_ascii "D" ++ [65533; 65533; 65533; 65533; 11; 65533]%N ++ runes_of_ascii "&\" ++ [65533]%N ++ runes_of_ascii "1" ++ [17; 65533; 65533; 65533; 65533; 23; 7]%N ++ runes_of_ascii "_" ++ [4; 65533; 65533; 24]%N)).
-Eval vm_compute in ("<<<M21>>>" ++ check (runes_of_ascii "//	t
-packet Packet{ u64 tag
+options {
+    BodyLength = '0';
+}")).
+Eval vm_compute in ("<<<M4463>>>" ++ check (runes_of_ascii "  packet
+    Packet{@calculatedFrom( ""\" ++ [233]%N ++ runes_of_ascii """ )
+    @tag( 42 
+) @calculatedFrom( 
+""\n"") a1 `{ , }`  ,	}
+")).
+Eval vm_compute in ("<<<M2272>>>" ++ check (runes_of_ascii "options
+    {
+x_y_z// " ++ [27880; 37322]%N ++ runes_of_ascii "
+= 10 ; }
+packet body {
+    @calculatedFrom(
+// trailing space 
+// " ++ [27880; 37322]%N ++ runes_of_ascii "
+""1""")).
+Eval vm_compute in ("<<<M1741>>>" ++ check (runes_of_ascii "options{  lengthOf =//x
+i16;
+    BodyLength BodyLength = 0 ; pack
+= false;
+    A = char[ 3 ] }")).
+Eval vm_compute in ("<<<M1721>>>" ++ check (runes_of_ascii "options{  lengthOf lengthOf =//x
+i16;
+    BodyLength = 0 ; pack
+= false;
+    A = char[ 3 ] }")).
+Eval vm_compute in ("<<<M1712>>>" ++ check (runes_of_ascii "options options{  lengthOf =//x
+i16;
+    BodyLength = 0 ; pack
+= false;
+    A = char[ 3 ] }")).
+Eval vm_compute in ("<<<M552>>>" ++ check (runes_of_ascii "//x
+options
+{
+f32a=
+true
+; f32a
+    =
+    ""a	b""; trueish =
+float32 ;
+BodyLength =false }
+")).
+Eval vm_compute in ("<<<M3216>>>" ++ check (runes_of_ascii "// top
+root // c0
+packet // c1
+u128 // c2
+{ // c3
+chars // c4
+`doc` // c5
+, // c6
+} // c7
+")).
+Eval vm_compute in ("<<<M1718>>>" ++ check (runes_of_ascii "options int8  lengthOf =//x
+i16;
+    BodyLength = 0 ; pack
+= false;
+    A = char[ 3 ] }")).
+Eval vm_compute in ("<<<M1430>>>" ++ check (runes_of_ascii "packet
+T
+{ ) repeatCount as	calculatedFrom
+{ [65535 ]	: As	,
+} ,}
+// trailing space 
+")).
+Eval vm_compute in ("<<<M1728>>>" ++ check (runes_of_ascii "options{  lengthOf as//x
+i16;
+    BodyLength = 0 ; pack
+= false;
+    A = char[ 3 ] }")).
+Eval vm_compute in ("<<<M1772>>>" ++ check (runes_of_ascii "options{  lengthOf =//x
+i16;
+    BodyLength = 0 ; pack
+= ;false
+    A = char[ 3 ] }")).
+Eval vm_compute in ("<<<M2932>>>" ++ check (runes_of_ascii "packet A {
+  match k as n {
+    [""a"", ""bb"", 007, ""d"", ""e"", 66] : B
+    2 : C
+  },
+}")).
+Eval vm_compute in ("<<<M2948>>>" ++ check (runes_of_ascii "packet A {
+  match k as n {
+    [1, 22, 007, 4, 5, 66, 7, 8] : B
+    2 : C
+  },
+}")).
+Eval vm_compute in ("<<<M2919>>>" ++ check (runes_of_ascii "packet A {
+  match k as n {
+    [""a"", ""bb"", 007, ""d"", ""e""] : B
+    2 : C
+  },
+}")).
+Eval vm_compute in ("<<<M3271>>>" ++ check (runes_of_ascii "MetaData Foo { zchar[ 0 ] matchKey , } options { lengthOf = i32 // c
+u = 00 ; }")).
+Eval vm_compute in ("<<<M331>>>" ++ check (runes_of_ascii "root packet
+    //	t
+    crc { // trailing space 
+repeat
+zchar[255 ]int
 ,}
 ")).
-Eval vm_compute in ("<<<M1023>>>" ++ check (runes_of_ascii "packet A {
- u8 x `d" ++ [8287]%N ++ runes_of_ascii "`, // c" ++ [8287]%N ++ runes_of_ascii "
+Eval vm_compute in ("<<<M2916>>>" ++ check (runes_of_ascii "packet A {
+  match k as n {
+    [1, 22, ""c c"", 4, 5] : B,
+    2 : C
+  },
 }")).
-Eval vm_compute in ("<<<M93>>>" ++ check (runes_of_ascii "packet repeatCount{	} // c")).
-Eval vm_compute in ("<<<M2001>>>" ++ check (runes_of_ascii "// c" ++ [65279]%N ++ runes_of_ascii "
-packet
+Eval vm_compute in ("<<<M4326>>>" ++ check (runes_of_ascii "  packet
+	u8x
+	{ @tag(
+	10
 
-A
+    // a // b
+  	)u128
 
+    `` ,	//	t
+	} ")).
+Eval vm_compute in ("<<<M1001>>>" ++ check (runes_of_ascii "packet // @lengthOf(
+Packet
+{
+    f64 stringy `it's` , }
+/// triple
+")).
+Eval vm_compute in ("<<<M2104>>>" ++ check (runes_of_ascii "MetaData BodyLength
+{ int8 Foo
+, string
+    MetaDataX , float zchar")).
+Eval vm_compute in ("<<<M1486>>>" ++ check (runes_of_ascii "packet
+T
+{ match repeatCount as	calculatedFrom
+{ [65535 ]	: As	,")).
+Eval vm_compute in ("<<<M3013>>>" ++ check (runes_of_ascii "packet A {
+    B b `a
+b`,
+    B `a
+b`,
+    repeat B bs `a
+b`,
+}")).
+Eval vm_compute in ("<<<M3295>>>" ++ check (runes_of_ascii "packet u8x { // c
+} MetaData crc { char[ 4294967296 ] Foo , }")).
+Eval vm_compute in ("<<<M2874>>>" ++ check (runes_of_ascii "packet A {
+  match k as n {
+    [1, 22] : B
+    2 : C
+  },
+}")).
+Eval vm_compute in ("<<<M2613>>>" ++ check (runes_of_ascii "packet A { match k as n { 1 : B 2 : C ""s"" : D [1] : E }, }")).
+Eval vm_compute in ("<<<M896>>>" ++ check (runes_of_ascii "MetaData body
+    //x
+    { // c
+} packet matchKey
 {}
 ")).
-Eval vm_compute in ("<<<M971>>>" ++ check (runes_of_ascii "packet A {
-}
-// c ")).
-Eval vm_compute in ("<<<M1052>>>" ++ check (runes_of_ascii "// c" ++ [6158]%N ++ runes_of_ascii "
-packet A {
-}")).
-Eval vm_compute in ("<<<M766>>>" ++ check (runes_of_ascii "u16 char[ @tag(")).
-Eval vm_compute in ("<<<M746>>>" ++ check (runes_of_ascii "[ { 10")).
-Eval vm_compute in ("<<<M247>>>" ++ check (runes_of_ascii "
+Eval vm_compute in ("<<<M24>>>" ++ check (runes_of_ascii "packet // " ++ [27880; 37322]%N ++ runes_of_ascii "
+BodyLength { f64	body@lengthOf( o ), }
+")).
+Eval vm_compute in ("<<<M1456>>>" ++ check (runes_of_ascii "packet
+T
+{ match repeatCount as	calculatedFrom
+{")).
+Eval vm_compute in ("<<<M3897>>>" ++ check (runes_of_ascii "
+root 
+packet  A
+{u8	x
+
+    `
+`
+,
+
+    }
 
 ")).
+Eval vm_compute in ("<<<M473>>>" ++ check (runes_of_ascii "// c
+MetaData crc // `tick` ""quote"" 'q'
+{ }
+")).
+Eval vm_compute in ("<<<M257>>>" ++ check (runes_of_ascii "packet packetx{} packet
+    zchar //	t
+{}
+")).
+Eval vm_compute in ("<<<M1311>>>" ++ check (runes_of_ascii "packet// c
+u128
+{ roots BodyLength , }
+
+")).
+Eval vm_compute in ("<<<M3225>>>" ++ check (runes_of_ascii "root packet u128 // c
+{ chars `doc` , }")).
+Eval vm_compute in ("<<<M4165>>>" ++ check (runes_of_ascii "options
+
+{
+a =
+	""%d%s"" ;	b	= ""%d%s""}
+")).
+Eval vm_compute in ("<<<M2387>>>" ++ check (runes_of_ascii "MetaData
+Foo {Header //
+pack "",	} 	 ")).
+Eval vm_compute in ("<<<M2377>>>" ++ check (runes_of_ascii "MetaData
+Foo {Header //
+pack }	, 	 ")).
+Eval vm_compute in ("<<<M3041>>>" ++ check (runes_of_ascii "root packet A {
+    u8 x `a
+
+b`,
+}")).
+Eval vm_compute in ("<<<M2594>>>" ++ check (runes_of_ascii "packet A { x @lengthOf(y) `d`, }")).
+Eval vm_compute in ("<<<M2858>>>" ++ check (runes_of_ascii "f64 zchar[ char u16 = f64 match")).
+Eval vm_compute in ("<<<M3169>>>" ++ check (runes_of_ascii "packet A {
+ u8 x `d" ++ [65279]%N ++ runes_of_ascii "`, // c" ++ [65279]%N ++ runes_of_ascii "
+}")).
+Eval vm_compute in ("<<<M2658>>>" ++ check (runes_of_ascii "MetaData M { @tag(1) u8 x, }")).
+Eval vm_compute in ("<<<M2656>>>" ++ check (runes_of_ascii "MetaData M { repeat u8 x, }")).
+Eval vm_compute in ("<<<M4373>>>" ++ check (runes_of_ascii "
+
+  // c" ++ [12]%N ++ runes_of_ascii "
+  packet  A
+
+{} ")).
+Eval vm_compute in ("<<<M3784>>>" ++ check (runes_of_ascii "
+packet	A {
+
+} 
+  // c 	")).
+Eval vm_compute in ("<<<M2646>>>" ++ check (runes_of_ascii "root root packet A { }")).
+Eval vm_compute in ("<<<M224>>>" ++ check (runes_of_ascii "packet
+    zchar{ }
+")).
+Eval vm_compute in ("<<<M2651>>>" ++ check (runes_of_ascii "MetaData M { u8 x }")).
+Eval vm_compute in ("<<<M3103>>>" ++ check (runes_of_ascii "// c" ++ [160]%N ++ runes_of_ascii "
+packet A {
+}")).
+Eval vm_compute in ("<<<M386>>>" ++ check (runes_of_ascii "packet u8x
+{  }
+")).
+Eval vm_compute in ("<<<M3160>>>" ++ check (runes_of_ascii "packet A {
+}// c" ++ [8203]%N)).
+Eval vm_compute in ("<<<M2501>>>" ++ check (runes_of_ascii "@calculatedFrom")).
+Eval vm_compute in ("<<<M2754>>>" ++ check (runes_of_ascii "q\A<l :(?*R<U")).
+Eval vm_compute in ("<<<M1152>>>" ++ check (runes_of_ascii " // a // b")).
+Eval vm_compute in ("<<<M1935>>>" ++ check (runes_of_ascii "
+packet")).
+Eval vm_compute in ("<<<M2432>>>" ++ check (runes_of_ascii "char[]")).
+Eval vm_compute in ("<<<M2468>>>" ++ check (runes_of_ascii "roots")).
+Eval vm_compute in ("<<<M101>>>" ++ check (runes_of_ascii "
+ 	 ")).
+Eval vm_compute in ("<<<M2418>>>" ++ check (runes_of_ascii "Met")).
+Eval vm_compute in ("<<<M32>>>" ++ check (runes_of_ascii "
+
+")).
+Eval vm_compute in ("<<<M2561>>>" ++ check ([233]%N)).
